@@ -377,8 +377,10 @@ Qed.
 
 (* ---- small facts used everywhere ---------------------------------------------------------------------------------- *)
 
-Ltac sf := unfold set_h, set_w, set_slot, set_val, set_refs, set_fpc, set_hs, set_cs, set_dying, set_under, set_uaf,
-                  set_gots, set_iruns, set_nfail, set_readys, set_freed, inc, note_ready in *; simpl in *.
+(* projections of nested setters are reduced lazily; never unfold the setters wholesale (the term size is exponential) *)
+Ltac sf := cbn [w slot val refs fpc hs cs alive dying frees under uaf gots iruns nfail readys
+                set_h set_w set_slot set_val set_refs set_fpc set_hs set_cs set_dying set_under set_uaf
+                set_gots set_iruns set_nfail set_readys set_freed inc note_ready] in *.
 
 Lemma prom_zero f : prom f = 0 -> f = FDone.
 Proof. destruct f; simpl; intros; try discriminate; reflexivity. Qed.
@@ -433,7 +435,7 @@ Qed.
 (* the state of a handle as its thread sees it: a sleeping waiter whose event was fired is awake *)
 Lemma pc_of_ok s h pc : Inv s -> pc_of s h = Some pc -> pc <> HDead ->
   exists pc0, nth_error (hs s) h = Some pc0 /\ live pc0 = true /\ inl_pc pc0 = inl_pc pc /\ h_ok s pc /\
-              (pc0 = pc \/ exists c k, pc0 = HSleep c k).
+              (pc0 = pc \/ exists c k, pc0 = HSleep c k /\ pc = after_wait k).
 Proof.
   intros I H Hd. unfold pc_of in H. destruct (nth_error (hs s) h) as [pc0|] eqn:E; [|discriminate].
   assert (Hok0 : h_ok s pc0) by (apply (I_h s I h); exact E).
@@ -568,6 +570,8 @@ Lemma ready_res s : ready_of true (w s) = true -> w s = WRes.
 Proof. simpl. destruct (w s); [discriminate|reflexivity]. Qed.
 
 Ltac eq_st := match goal with s : st |- _ => destruct s; reflexivity end.
+Ltac to_st Y := match goal with |- ?P ?X =>
+  first [ change (P Y) | let E := fresh in assert (E : X = Y) by eq_st; rewrite E; clear E ] end.
 
 Ltac use_pc I Hpc :=
   let pc0 := fresh "pc0" in let Hn := fresh "Hn" in let Hl := fresh "Hl" in let Hinl := fresh "Hinl" in
@@ -575,11 +579,11 @@ Ltac use_pc I Hpc :=
   destruct (pc_of_ok _ _ _ I Hpc ltac:(discriminate)) as [pc0 [Hn [Hl [Hinl [Hok Hor]]]]].
 
 Lemma not_moved_pc s h pc pc0 : Inv s -> nth_error (hs s) h = Some pc0 ->
-  (pc0 = pc \/ exists c k, pc0 = HSleep c k) -> pc <> HSpent -> pc <> HDead -> slot s <> Moved.
+  (pc0 = pc \/ exists c k, pc0 = HSleep c k /\ pc = after_wait k) -> pc <> HSpent -> pc <> HDead -> slot s <> Moved.
 Proof.
   intros I Hn Hor H1 H2. eapply not_moved_h; [exact I|exact Hn| |].
-  - destruct Hor as [->|[c [k ->]]]; [exact H1|discriminate].
-  - destruct Hor as [->|[c [k ->]]]; [exact H2|discriminate].
+  - destruct Hor as [->|[c [k [-> _]]]]; [exact H1|discriminate].
+  - destruct Hor as [->|[c [k [-> _]]]]; [exact H2|discriminate].
 Qed.
 
 Ltac log_g I := apply (proj1 (I_log _ I)).
@@ -598,7 +602,7 @@ Proof.
     subst s'. apply (inv_local s h pc0 _ _ _ _ _ I Hn Hl);
       [reflexivity|simpl; auto|nomv|log_g I|log_i I|log_r I|rewrite Hinl; simpl; lia].
   - inversion H; subst; clear H.
-    replace (set_h h (after_wait k) s) with (local_upd h (after_wait k) (gots s) (iruns s) (nfail s) (readys s) s) by eq_st.
+    to_st (local_upd h (after_wait k) (gots s) (iruns s) (nfail s) (readys s) s).
     apply (inv_local s h pc0 _ _ _ _ _ I Hn Hl);
       [destruct k; reflexivity|destruct k; simpl; auto|nomv|log_g I|log_i I|log_r I|rewrite Hinl; destruct k; simpl; lia].
 Qed.
@@ -613,7 +617,7 @@ Proof.
   { destruct p as [[]|]; try exact H. congruence. }
   clear H. destruct (w s) eqn:Hw.
   - inversion H'; subst; clear H'.
-    replace (set_h h (HAtt p l) s) with (local_upd h (HAtt p l) (gots s) (iruns s) (nfail s) (readys s) s) by eq_st.
+    to_st (local_upd h (HAtt p l) (gots s) (iruns s) (nfail s) (readys s) s).
     apply (inv_local s h pc0 _ _ _ _ _ I Hn Hl);
       [reflexivity|simpl; auto|nomv|log_g I|log_i I|log_r I|rewrite Hinl; simpl; lia].
   - eapply attach_failed_inv; eauto.
@@ -627,49 +631,41 @@ Lemma inv_step_h_local s e s' :
   end ->
   step_h true s e = Some s' -> Inv s'.
 Proof.
-  intros I Ha He H. destruct e; try contradiction; simpl in H.
+  intros I Ha He H. destruct e; try contradiction; cbn [step_h] in H.
   - (* EReady *)
     destruct (pc_of s h) as [[]|] eqn:Hpc; try discriminate. destruct (obs_ok v (w s)); [|discriminate].
-    inversion H; subst; clear H. use_pc I Hpc.
+    injection H as <-. use_pc I Hpc.
     assert (Hm : slot s <> Moved) by (eapply not_moved_pc; eauto; discriminate).
-    replace (set_h h H0 (note_ready true s))
-      with (local_upd h H0 (gots s) (iruns s) (nfail s) (readys s ++ [(ready_of true (w s), is_some (rd s))]) s) by eq_st.
+    to_st (local_upd h H0 (gots s) (iruns s) (nfail s) (readys s ++ [(ready_of true (w s), is_some (rd s))]) s).
     apply (inv_local s h pc0 _ _ _ _ _ I Hn Hl);
       [reflexivity|simpl; auto|nomv|log_g I|log_i I| |rewrite Hinl; simpl; lia].
     apply Forall_app_one; [log_r I|]. intros Hr. apply ready_sound_now; auto.
   - (* EAwaitL *)
     destruct (pc_of s h) as [[]|] eqn:Hpc; try discriminate. destruct (obs_ok v (w s)); [|discriminate].
-    use_pc I Hpc.
+    injection H as <-. use_pc I Hpc.
     assert (Hm : slot s <> Moved) by (eapply not_moved_pc; eauto; discriminate).
-    assert (Hr : ready_of true (w s) = true -> is_some (rd s) = true) by (apply ready_sound_now; auto).
-    assert (Hx : exists pc', s' = local_upd h pc' (gots s) (iruns s) (nfail s)
-                                   (readys s ++ [(ready_of true (w s), is_some (rd s))]) s /\
-                             (pc' = H0 \/ (pc' = HRead /\ w s = WRes))).
-    { destruct (w s) eqn:Hw; inversion H; subst; clear H.
-      - exists H0. split; [destruct s; simpl in *; subst; reflexivity|left; reflexivity].
-      - exists HRead. split; [destruct s; simpl in *; subst; reflexivity|right; auto]. }
-    clear H. destruct Hx as [pc' [-> Hp]].
+    to_st (local_upd h (if ready_of true (w s) then HRead else H0) (gots s) (iruns s) (nfail s)
+                      (readys s ++ [(ready_of true (w s), is_some (rd s))]) s).
     apply (inv_local s h pc0 _ _ _ _ _ I Hn Hl);
-      [destruct Hp as [->|[-> _]]; reflexivity|destruct Hp as [->|[-> Hw]]; simpl; auto|nomv|log_g I|log_i I| |
-       rewrite Hinl; destruct Hp as [->|[-> _]]; simpl; lia].
-    apply Forall_app_one; [log_r I|]. exact Hr.
+      [destruct (ready_of true (w s)); reflexivity| |nomv|log_g I|log_i I| |
+       rewrite Hinl; destruct (ready_of true (w s)); simpl; lia].
+    + destruct (ready_of true (w s)) eqn:Er; [|exact Logic.I]. apply ready_res in Er. exact Er.
+    + apply Forall_app_one; [log_r I|]. intros Hr. apply ready_sound_now; auto.
   - (* ETouchL *)
     destruct (pc_of s h) as [[]|] eqn:Hpc; try discriminate.
     destruct (obs_ok v (w s) && ready_of true (w s)) eqn:Eb; [|discriminate].
     apply andb_true_iff in Eb. destruct Eb as [_ Er]. apply ready_res in Er.
-    inversion H; subst; clear H. use_pc I Hpc.
+    injection H as <-. use_pc I Hpc.
     assert (Hm : slot s <> Moved) by (eapply not_moved_pc; eauto; discriminate).
-    replace (set_h h (if mv then HRc else HRead) s)
-      with (local_upd h (if mv then HRc else HRead) (gots s) (iruns s) (nfail s) (readys s) s) by eq_st.
+    to_st (local_upd h (if mv then HRc else HRead) (gots s) (iruns s) (nfail s) (readys s) s).
     apply (inv_local s h pc0 _ _ _ _ _ I Hn Hl);
       [destruct mv; reflexivity|destruct mv; exact Er|nomv|log_g I|log_i I|log_r I|rewrite Hinl; destruct mv; simpl; lia].
   - (* ERcH *)
     destruct (pc_of s h) as [[]|] eqn:Hpc; try discriminate.
-    destruct (Nat.eqb n (refs s)) eqn:En; [|discriminate]. apply Nat.eqb_eq in En.
-    inversion H; subst; clear H. use_pc I Hpc.
+    destruct (Nat.eqb n (refs s)) eqn:En; [|discriminate]. apply Nat.eqb_eq in En. subst n.
+    injection H as <-. use_pc I Hpc.
     assert (Hm : slot s <> Moved) by (eapply not_moved_pc; eauto; discriminate).
-    replace (set_h h (HOut (Nat.eqb (refs s) get_move_when_ref_eq)) s)
-      with (local_upd h (HOut (Nat.eqb (refs s) get_move_when_ref_eq)) (gots s) (iruns s) (nfail s) (readys s) s) by eq_st.
+    to_st (local_upd h (HOut (Nat.eqb (refs s) get_move_when_ref_eq)) (gots s) (iruns s) (nfail s) (readys s) s).
     apply (inv_local s h pc0 _ _ _ _ _ I Hn Hl);
       [reflexivity| |nomv|log_g I|log_i I|log_r I|rewrite Hinl; simpl; lia].
     simpl in Hok. destruct (Nat.eqb (refs s) get_move_when_ref_eq) eqn:E1; simpl; auto.
@@ -696,8 +692,7 @@ Proof.
     assert (Hm : slot s <> Moved) by (eapply not_moved_pc; eauto; destruct Hk; subst; discriminate).
     assert (Hw : w s = WRes) by (destruct Hk; subst; simpl in Hok; tauto).
     destruct (rd_ok s I Ha Hw Hm) as [R1 R2].
-    replace (set_h h H0 (set_iruns (iruns s ++ [rd s]) s))
-      with (local_upd h H0 (gots s) (iruns s ++ [rd s]) (nfail s) (readys s) s) by eq_st.
+    to_st (local_upd h H0 (gots s) (iruns s ++ [rd s]) (nfail s) (readys s) s).
     apply (inv_local s h pc0 _ _ _ _ _ I Hn Hl);
       [reflexivity|exact Logic.I|nomv|log_g I| |log_r I|].
     + apply Forall_app_one; [log_i I|]. split; congruence.
@@ -705,9 +700,9 @@ Proof.
   - (* EConnL *)
     destruct (pc_of s h) as [[]|] eqn:Hpc; try discriminate. destruct k; try discriminate.
     destruct (obs_ok v (w s) && ready_of true (w s)) eqn:Eb; [|discriminate].
-    inversion H; subst; clear H. use_pc I Hpc.
+    injection H as <-. use_pc I Hpc.
     assert (Hm : slot s <> Moved) by (eapply not_moved_pc; eauto; discriminate).
-    replace (set_h h HConnR s) with (local_upd h HConnR (gots s) (iruns s) (nfail s) (readys s) s) by eq_st.
+    to_st (local_upd h HConnR (gots s) (iruns s) (nfail s) (readys s) s).
     apply (inv_local s h pc0 _ _ _ _ _ I Hn Hl);
       [reflexivity|simpl in Hok; simpl; tauto|nomv|log_g I|log_i I|log_r I|rewrite Hinl; simpl; lia].
 Qed.
@@ -777,3 +772,1134 @@ Proof.
   intros I H. apply (I_pend s I) in H. unfold cst_at in H. destruct (nth_error (cs s) c) eqn:E; [|discriminate].
   eapply nth_some_lt; eauto.
 Qed.
+
+(* ---- the value is read / copied / moved out by a handle ------------------------------------------------------------ *)
+
+Lemma inv_step_got s h s' : Inv s -> alive s = true -> step_h true s (EGot h) = Some s' -> Inv s'.
+Proof.
+  intros I Ha H. cbn [step_h] in H.
+  destruct (pc_of s h) as [pc|] eqn:Hpc; [|discriminate].
+  assert (Hd : pc <> HDead) by (intros ->; discriminate).
+  destruct (pc_of_ok _ _ _ I Hpc Hd) as [pc0 [Hn [Hl [Hinl [Hok Hor]]]]].
+  destruct pc as [ | | |mv| | | | | | ]; try discriminate.
+  - (* Get / Touch const& *)
+    injection H as <-.
+    assert (Hm : slot s <> Moved) by (eapply not_moved_pc; eauto; discriminate).
+    destruct (rd_ok s I Ha Hok Hm) as [R1 R2].
+    to_st (local_upd h H0 (gots s ++ [rd s]) (iruns s) (nfail s) (readys s) s).
+    apply (inv_local s h pc0 _ _ _ _ _ I Hn Hl);
+      [reflexivity|exact Logic.I|nomv| |log_i I|log_r I|rewrite Hinl; simpl; lia].
+    apply Forall_app_one; [log_g I|]. split; congruence.
+  - assert (Hm : slot s <> Moved) by (eapply not_moved_pc; eauto; discriminate).
+    assert (Hw : w s = WRes) by (destruct mv; simpl in Hok; tauto).
+    destruct (rd_ok s I Ha Hw Hm) as [R1 R2].
+    destruct mv.
+    + (* the move: this handle is the only thing left *)
+      injection H as <-.
+      assert (Hp : pc0 = HOut true) by (destruct Hor as [E|[c [k [_ E]]]]; [exact E|destruct k; discriminate]).
+      subst pc0. destruct (excl_out s h I Hn) as [Hf [Hc1 Hc0]].
+      constructor.
+      * destruct (I_acct s I) as [A1 A2]. unfold AcctI. sf. split; [|exact A2].
+        pose proof (count_upd live _ _ _ HSpent Hn) as C. simpl in C. lia.
+      * unfold WordI. sf. rewrite Hf. destruct (word_res s I Hw) as [r [Hv _]]. split; [exact Hw|]. exists r. auto.
+      * exact (I_pendg s I).
+      * intros c e Hc. sf. eapply cb_ok_frame; [apply (I_cb s I); exact Hc|auto|auto|auto].
+      * intros h' pc'' Hh. sf. rewrite nth_upd in Hh. destruct (Nat.eqb h h') eqn:E.
+        { rewrite Nat.eqb_eq in E. subst h'. rewrite Hn in Hh. injection Hh as <-. exact Logic.I. }
+        { eapply h_ok_frame; [apply (I_h s I h'); exact Hh|auto|auto|intros; eauto]. }
+      * intros _. sf. split.
+        { intros h' pc'' Hh. rewrite nth_upd in Hh. destruct (Nat.eqb h h') eqn:E.
+          - rewrite Nat.eqb_eq in E. subst h'. rewrite Hn in Hh. injection Hh as <-. left; reflexivity.
+          - right. apply live_dead. destruct (live pc'') eqn:El; [|reflexivity]. exfalso.
+            apply Nat.eqb_neq in E. pose proof (count_two live _ _ _ _ _ Hn Hh E eq_refl El). lia. }
+        { intros c e Hc. eapply done_unless; eauto.
+          - unfold pend. rewrite Hw, Hf. simpl. auto.
+          - unfold cur. rewrite Hf. discriminate.
+          - eapply count_zero; eauto. }
+      * destruct (I_log s I) as [L1 [L2 L3]]. unfold LogI, good_val. sf. split; [|split; assumption].
+        apply Forall_app_one; [exact L1|]. split; congruence.
+      * unfold FailI. sf. pose proof (count_upd inl_pc _ _ _ HSpent Hn) as C. pose proof (I_fail s I) as F.
+        unfold FailI in F. simpl in C. lia.
+    + injection H as <-.
+      to_st (local_upd h HSpent (gots s ++ [rd s]) (iruns s) (nfail s) (readys s) s).
+      apply (inv_local s h pc0 _ _ _ _ _ I Hn Hl);
+        [reflexivity|exact Logic.I|intros; left; reflexivity| |log_i I|log_r I|rewrite Hinl; simpl; lia].
+      apply Forall_app_one; [log_g I|]. split; congruence.
+Qed.
+
+(* ---- a successful push onto the callback list ----------------------------------------------------------------------- *)
+
+Lemma cst_at_app l x c :
+  cst_at (l ++ [x]) c = if Nat.ltb c (length l) then cst_at l c else if Nat.eqb c (length l) then Some (cst x) else None.
+Proof. unfold cst_at. rewrite nth_app_one. destruct (Nat.ltb c (length l)); [reflexivity|destruct (Nat.eqb c (length l)); reflexivity]. Qed.
+
+Lemma fir_at_app l x c :
+  fir_at (l ++ [x]) c = if Nat.ltb c (length l) then fir_at l c else if Nat.eqb c (length l) then firing (cst x) else false.
+Proof. unfold fir_at. rewrite nth_app_one. destruct (Nat.ltb c (length l)); [reflexivity|destruct (Nat.eqb c (length l)); reflexivity]. Qed.
+
+Lemma cst_at_lt l c x : cst_at l c = Some x -> c < length l.
+Proof. unfold cst_at. destruct (nth_error l c) eqn:E; [|discriminate]. intros _. eapply nth_some_lt; eauto. Qed.
+
+Lemma fir_at_lt l c : fir_at l c = true -> c < length l.
+Proof. unfold fir_at. destruct (nth_error l c) eqn:E; [|discriminate]. intros _. eapply nth_some_lt; eauto. Qed.
+
+Lemma nth_app_old {A} (l : list A) x c e : nth_error l c = Some e -> nth_error (l ++ [x]) c = Some e.
+Proof. intros H. rewrite nth_error_app1; [exact H|eapply nth_some_lt; eauto]. Qed.
+
+Lemma inv_push s h p l pc0 :
+  Inv s -> alive s = true -> nth_error (hs s) h = Some pc0 -> live pc0 = true -> inl_pc pc0 = false ->
+  p <> PCb KEvent -> w s = WStack l -> Inv (push h p l s).
+Proof.
+  intros I Ha Hn Hl Hinl Hp Hw. unfold push.
+  set (c := length (cs s)).
+  set (new := {| ck := kind_of_purpose p; cinl := false; cst := CQueued; cv := [] |}).
+  set (pc' := match p with PCb _ => H0 | PWait k => HSleep c k end).
+  assert (Hl' : live pc' = true) by (unfold pc'; destruct p; reflexivity).
+  assert (Hi' : inl_pc pc' = false) by (unfold pc'; destruct p; reflexivity).
+  assert (Hpend : pend s = l) by (unfold pend; rewrite Hw; reflexivity).
+  assert (Hf : fpc s = F0 \/ fpc s = F1).
+  { pose proof (I_word s I) as W. unfold WordI in W. destruct (fpc s); auto; destruct W as [W _]; congruence. }
+  assert (Hcur : cur s = None) by (unfold cur; destruct Hf as [-> | ->]; reflexivity).
+  constructor.
+  - destruct (I_acct s I) as [A1 A2]. unfold AcctI. sf. split; [|exact A2].
+    pose proof (count_upd live _ _ _ pc' Hn) as C. rewrite Hl, Hl' in C. rewrite count_app. simpl. lia.
+  - pose proof (I_word s I) as W. unfold WordI in *. sf. destruct Hf as [E|E]; rewrite E in *.
+    + destruct W as [W1 [W2 _]]. repeat split; eauto.
+    + destruct W as [W1 _]. split; eauto.
+  - destruct (I_pendg s I) as [P1 [P2 [P3 P4]]]. unfold PendI, pend, cur in *. sf. rewrite Hw in *. simpl in *.
+    split; [|split; [|split]].
+    + constructor; [|exact P1]. intros Hin. apply P2 in Hin. apply cst_at_lt in Hin. unfold c in Hin. lia.
+    + intros c'. rewrite cst_at_app. fold c. split.
+      * intros [E|Hin].
+        { subst c'. rewrite Nat.ltb_irrefl, Nat.eqb_refl. reflexivity. }
+        { apply P2 in Hin. pose proof (cst_at_lt _ _ _ Hin) as Hlt. apply Nat.ltb_lt in Hlt. fold c in Hlt. rewrite Hlt. exact Hin. }
+      * destruct (Nat.ltb c' c) eqn:E1.
+        { intros Hq. right. apply P2. exact Hq. }
+        { destruct (Nat.eqb c' c) eqn:E2; [|discriminate]. apply Nat.eqb_eq in E2. intros _. left. auto. }
+    + destruct Hf as [E|E]; rewrite E; exact Logic.I.
+    + intros c'. rewrite fir_at_app. fold c. destruct (Nat.ltb c' c) eqn:E1.
+      * apply P4.
+      * split.
+        { destruct (Nat.eqb c' c); simpl; discriminate. }
+        { intros Hc. destruct Hf as [E|E]; rewrite E in Hc; discriminate. }
+  - intros c' e Hc. sf. rewrite nth_app_one in Hc. fold c in Hc. destruct (Nat.ltb c' c) eqn:E1.
+    + pose proof (I_cb s I c' e Hc) as [B1 [B2 B3]]. unfold cb_ok. sf. split; [|split].
+      * intros Hq. specialize (B1 Hq). congruence.
+      * destruct (cst e) eqn:Ec; auto.
+      * exact B3.
+    + destruct (Nat.eqb c' c); [|discriminate]. injection Hc as <-. unfold cb_ok. simpl. repeat split; auto. congruence.
+  - intros h' pc'' Hh. sf. rewrite nth_upd in Hh.
+    assert (Hfr : forall pcx, h_ok s pcx -> pcx <> HOut true ->
+                  h_ok (set_h h pc' (set_w (WStack (c :: l)) (set_cs (cs s ++ [new]) s))) pcx).
+    { intros pcx Hx Hne. destruct pcx; simpl in *; auto; try congruence.
+      - destruct mv; [congruence|congruence].
+      - destruct Hx as [e [He Hk]]. exists e. split; [apply nth_app_old; exact He|exact Hk].
+      - destruct Hx; congruence. }
+    destruct (Nat.eqb h h') eqn:E.
+    + rewrite Nat.eqb_eq in E. subst h'. rewrite Hn in Hh. injection Hh as <-.
+      unfold pc'. destruct p as [k|k]; simpl; auto.
+      exists new. split; [|reflexivity]. rewrite nth_app_one. fold c. rewrite Nat.ltb_irrefl, Nat.eqb_refl. reflexivity.
+    + apply Hfr; [apply (I_h s I h'); exact Hh|].
+      intros ->. pose proof (I_h s I h' _ Hh) as [Hx _]. congruence.
+  - intros Hm. sf. exfalso. pose proof (I_word s I) as W. unfold WordI in W.
+    destruct Hf as [E|E]; rewrite E in W.
+    + destruct W as [W _]. congruence.
+    + destruct W as [[r [W _]] _]. congruence.
+  - exact (I_log s I).
+  - unfold FailI. sf. pose proof (count_upd inl_pc _ _ _ pc' Hn) as C. pose proof (I_fail s I) as F. unfold FailI in F.
+    rewrite count_app. simpl. rewrite Hinl, Hi' in C. lia.
+Qed.
+
+Lemma inv_step_cas s h ok s' : Inv s -> alive s = true -> step_h true s (ECas h ok) = Some s' -> Inv s'.
+Proof.
+  intros I Ha H. cbn [step_h] in H.
+  destruct (pc_of s h) as [pc|] eqn:Hpc; [|discriminate].
+  destruct pc as [ | | | |p next| | | | | ]; try discriminate.
+  use_pc I Hpc.
+  assert (Hm : slot s <> Moved) by (eapply not_moved_pc; eauto; discriminate).
+  assert (Hi0 : inl_pc pc0 = false) by exact Hinl.
+  destruct (w s) eqn:Hw.
+  - assert (Hstay : Inv (set_h h (HAtt p l) s)).
+    { to_st (local_upd h (HAtt p l) (gots s) (iruns s) (nfail s) (readys s) s).
+      apply (inv_local s h pc0 _ _ _ _ _ I Hn Hl);
+        [reflexivity|exact Hok|nomv|log_g I|log_i I|log_r I|rewrite Hi0; simpl; lia]. }
+    destruct (list_eqb l next) eqn:El; destruct ok; try discriminate; injection H as <-; try exact Hstay.
+    apply (inv_push s h p l pc0); auto.
+  - destruct ok; [discriminate|]. eapply attach_failed_inv; eauto.
+Qed.
+
+(* ---- steps that change the reference counter ------------------------------------------------------------------------ *)
+
+Lemma cb_ok_noexcl s s' c e :
+  cb_ok s c e -> (forall dc, cst e <> CConn true dc) -> (w s = WRes -> w s' = WRes) -> val s' = val s -> cb_ok s' c e.
+Proof.
+  intros H Hne Hw Hv. eapply cb_ok_frame; eauto. intros dc Hc. exfalso. eapply Hne; eauto.
+Qed.
+
+Lemma h_ok_noexcl s s' pc :
+  h_ok s pc -> pc <> HOut true -> (w s = WRes -> w s' = WRes) ->
+  (forall c e, nth_error (cs s) c = Some e -> exists e', nth_error (cs s') c = Some e' /\ ck e' = ck e) -> h_ok s' pc.
+Proof. intros H Hne Hw Hc. eapply h_ok_frame; eauto. intros E. congruence. Qed.
+
+Lemma inv_step_copy s h s' : Inv s -> alive s = true -> step_h true s (ECopy h) = Some s' -> Inv s'.
+Proof.
+  intros I Ha H. cbn [step_h] in H.
+  destruct (pc_of s h) as [[]|] eqn:Hpc; try discriminate. injection H as <-. use_pc I Hpc.
+  assert (Hm : slot s <> Moved) by (eapply not_moved_pc; eauto; discriminate).
+  assert (Hne : pc0 <> HOut true) by (destruct Hor as [->|[c [k [-> _]]]]; discriminate).
+  destruct (no_excl_h s h pc0 I Hn Hl Hne) as [X1 X2].
+  constructor.
+  - to_st (set_fpc (fpc s) (set_hs (upd (hs s) h H0 ++ [H0]) (set_cs (cs s) (inc s)))).
+    apply (acct_inc s _ _ _ (I_acct s I) Ha).
+    rewrite count_app. pose proof (count_upd live _ _ _ H0 Hn) as C. rewrite Hl in C. simpl in *. rewrite (I_refs s I). lia.
+  - exact (I_wordg s I).
+  - exact (I_pendg s I).
+  - intros c e Hc. sf. eapply cb_ok_noexcl; [apply (I_cb s I); exact Hc|intros dc; eapply X2; eauto|auto|auto].
+  - intros h' pc'' Hh. sf. rewrite nth_app_one, upd_length in Hh. destruct (Nat.ltb h' (length (hs s))) eqn:E1.
+    + rewrite nth_upd in Hh. destruct (Nat.eqb h h') eqn:E.
+      * rewrite Nat.eqb_eq in E. subst h'. rewrite Hn in Hh. injection Hh as <-. exact Logic.I.
+      * eapply h_ok_noexcl; [apply (I_h s I h'); exact Hh|intros ->; eapply X1; eauto|auto|intros; eauto].
+    + destruct (Nat.eqb h' (length (hs s))); [|discriminate]. injection Hh as <-. exact Logic.I.
+  - intros Hmv. sf. congruence.
+  - exact (I_log s I).
+  - unfold FailI. sf. rewrite count_app. pose proof (count_upd inl_pc _ _ _ H0 Hn) as C. pose proof (I_fail s I) as F.
+    unfold FailI in F. rewrite Hinl in C. simpl in *. lia.
+Qed.
+
+Lemma inv_step_incinl s h s' : Inv s -> alive s = true -> step_h true s (EIncInl h) = Some s' -> Inv s'.
+Proof.
+  intros I Ha H. cbn [step_h] in H.
+  destruct (pc_of s h) as [[]|] eqn:Hpc; try discriminate. destruct k; try discriminate. injection H as <-. use_pc I Hpc.
+  assert (Hm : slot s <> Moved) by (eapply not_moved_pc; eauto; discriminate).
+  assert (Hp : pc0 = HInl KCall) by (destruct Hor as [E|[c [k [_ E]]]]; [exact E|destruct k; discriminate]). subst pc0.
+  destruct (no_excl_h s h _ I Hn Hl ltac:(discriminate)) as [X1 X2].
+  destruct Hok as [Hw _].
+  set (new := {| ck := KCall; cinl := true; cst := CHeld; cv := [] |}).
+  constructor.
+  - to_st (set_fpc (fpc s) (set_hs (upd (hs s) h H0) (set_cs (cs s ++ [new]) (inc s)))).
+    apply (acct_inc s _ _ _ (I_acct s I) Ha).
+    rewrite count_app. pose proof (count_upd live _ _ _ H0 Hn) as C. simpl in *. rewrite (I_refs s I). lia.
+  - exact (I_wordg s I).
+  - destruct (I_pendg s I) as [P1 [P2 [P3 P4]]]. unfold PendI, pend, cur in *. sf. split; [exact P1|split; [|split; [exact P3|]]].
+    + intros c'. rewrite cst_at_app. split.
+      * intros Hin. apply P2 in Hin. pose proof (cst_at_lt _ _ _ Hin) as Hlt. apply Nat.ltb_lt in Hlt. rewrite Hlt. exact Hin.
+      * destruct (Nat.ltb c' (length (cs s))); [apply P2|]. destruct (Nat.eqb c' (length (cs s))); discriminate.
+    + intros c'. rewrite fir_at_app. destruct (Nat.ltb c' (length (cs s))) eqn:E1; [apply P4|]. split.
+      * destruct (Nat.eqb c' (length (cs s))); discriminate.
+      * intros Hc. apply P4 in Hc. apply fir_at_lt in Hc. apply Nat.ltb_lt in Hc. congruence.
+  - intros c' e Hc. sf. rewrite nth_app_one in Hc. destruct (Nat.ltb c' (length (cs s))) eqn:E1.
+    + eapply cb_ok_noexcl; [apply (I_cb s I); exact Hc|intros dc; eapply X2; eauto|auto|auto].
+    + destruct (Nat.eqb c' (length (cs s))); [|discriminate]. injection Hc as <-. unfold cb_ok. simpl. repeat split; auto.
+  - intros h' pc'' Hh. sf. rewrite nth_upd in Hh. destruct (Nat.eqb h h') eqn:E.
+    + rewrite Nat.eqb_eq in E. subst h'. rewrite Hn in Hh. injection Hh as <-. exact Logic.I.
+    + eapply h_ok_noexcl; [apply (I_h s I h'); exact Hh|intros ->; eapply X1; eauto|auto|].
+      intros c e He. exists e. split; [apply nth_app_old; exact He|reflexivity].
+  - intros Hmv. sf. congruence.
+  - exact (I_log s I).
+  - unfold FailI. sf. rewrite count_app. pose proof (count_upd inl_pc _ _ _ H0 Hn) as C. pose proof (I_fail s I) as F.
+    unfold FailI in F. simpl in *. lia.
+Qed.
+
+Lemma inv_step_destroy s h s' : Inv s -> alive s = true -> step_h true s (EDestroy h) = Some s' -> Inv s'.
+Proof.
+  intros I Ha H. cbn [step_h] in H.
+  assert (Hx : exists pc, pc_of s h = Some pc /\ (pc = H0 \/ pc = HSpent) /\ s' = set_h h HDead (dec s)).
+  { destruct (pc_of s h) as [[]|] eqn:Hpc; try discriminate; injection H as <-; eexists; eauto. }
+  clear H. destruct Hx as [pc [Hpc [Hk ->]]].
+  assert (Hd : pc <> HDead) by (destruct Hk; subst; discriminate).
+  destruct (pc_of_ok _ _ _ I Hpc Hd) as [pc0 [Hn [Hl [Hinl [Hok Hor]]]]].
+  assert (Hne : pc0 <> HOut true) by (destruct Hor as [->|[c [k [-> _]]]]; [destruct Hk; subst; discriminate|discriminate]).
+  assert (Hi0 : inl_pc pc0 = false) by (rewrite Hinl; destruct Hk; subst; reflexivity).
+  destruct (no_excl_h s h pc0 I Hn Hl Hne) as [X1 X2].
+  pose proof (count_upd live _ _ _ HDead Hn) as C. rewrite Hl in C. simpl in C.
+  constructor.
+  - to_st (set_fpc (fpc (dec s)) (set_hs (upd (hs (dec s)) h HDead) (set_cs (cs (dec s)) (dec s)))).
+    apply (acct_dec s _ _ _ (I_acct s I) Ha). decp. rewrite (I_refs s I). lia.
+  - pose proof (I_wordg s I) as W. unfold WordI in *. sf. decp. exact W.
+  - pose proof (I_pendg s I) as P. unfold PendI, pend, cur in *. sf. decp. exact P.
+  - intros c e Hc. sf. decp. eapply cb_ok_noexcl; [apply (I_cb s I); exact Hc|intros dc; eapply X2; eauto|sf; decp; auto|sf; decp; auto].
+  - intros h' pc'' Hh. sf. decp. rewrite nth_upd in Hh. destruct (Nat.eqb h h') eqn:E.
+    + rewrite Nat.eqb_eq in E. subst h'. rewrite Hn in Hh. injection Hh as <-. exact Logic.I.
+    + eapply h_ok_noexcl; [apply (I_h s I h'); exact Hh|intros ->; eapply X1; eauto|sf; decp; auto|sf; decp; intros; eauto].
+  - intros Hmv. sf. decp. destruct (I_moved s I Hmv) as [M1 M2]. split; [|exact M2].
+    intros h' pc'' Hh. rewrite nth_upd in Hh. destruct (Nat.eqb h h') eqn:E.
+    + rewrite Nat.eqb_eq in E. subst h'. rewrite Hn in Hh. injection Hh as <-. right; reflexivity.
+    + eapply M1; eauto.
+  - pose proof (I_log s I) as L. unfold LogI, good_val in *. sf. decp. exact L.
+  - pose proof (I_fail s I) as F. unfold FailI in *. sf. decp.
+    pose proof (count_upd inl_pc _ _ _ HDead Hn) as C2. rewrite Hi0 in C2. simpl in C2. lia.
+Qed.
+
+(* ---- the walk over the list ---------------------------------------------------------------------------------------- *)
+
+Lemma NoDup_app_disj {A} (a b : list A) : NoDup (a ++ b) -> forall x, In x a -> ~ In x b.
+Proof.
+  induction a as [|y a IH]; simpl; intros H x Hx; [contradiction|].
+  inversion H; subst. destruct Hx as [->|Hx].
+  - intros Hb. apply H2. apply in_or_app. right. exact Hb.
+  - apply IH; assumption.
+Qed.
+
+Lemma NoDup_app_r {A} (a b : list A) : NoDup (a ++ b) -> NoDup b.
+Proof. induction a; simpl; intros H; [exact H|]. inversion H; auto. Qed.
+
+Lemma memb_false j l : memb j l = false <-> ~ In j l.
+Proof. rewrite <- memb_In. destruct (memb j l); split; intros; congruence. Qed.
+
+Definition cur_of (pc : fpc_t) : option nat := match pc with FWalk c _ | FLast c => Some c | _ => None end.
+
+Lemma advance_pend l cbs pc cbs' :
+  advance l cbs = (pc, cbs') -> NoDup l ->
+  (forall c, In c l <-> cst_at cbs c = Some CQueued) ->
+  (forall c, fir_at cbs c = false) ->
+  NoDup (pend_of WRes pc) /\
+  (forall c, In c (pend_of WRes pc) <-> cst_at cbs' c = Some CQueued) /\
+  match pc with FWalk _ [] => False | _ => True end /\
+  (forall c, fir_at cbs' c = true <-> cur_of pc = Some c) /\
+  prom pc = 3 /\ (pc <> F0 /\ pc <> F1 /\ pc <> FDone /\ forall c, pc <> FLast c) /\
+  (forall j e2, nth_error cbs' j = Some e2 -> exists e1, nth_error cbs j = Some e1 /\
+       (e2 = e1 \/ (cst e1 = CQueued /\ ck e1 = KEvent /\ e2 = with_cst e1 CDone) \/
+        (cst e1 = CQueued /\ ck e1 <> KEvent /\ e2 = with_cst e1 CFireF))) /\
+  (forall j e1, nth_error cbs j = Some e1 -> exists e2, nth_error cbs' j = Some e2 /\ ck e2 = ck e1) /\
+  count held cbs' = count held cbs /\ count cinl cbs' = count cinl cbs.
+Proof.
+  intros H Hnd Hq Hf. destruct (advance_spec l cbs pc cbs' H) as [sk [Hev Hc]].
+  assert (Hsk : forall j e1, In j sk -> In j l -> nth_error cbs j = Some e1 -> cst e1 = CQueued /\ ck e1 = KEvent).
+  { intros j e1 Hj Hl Hn. split.
+    - apply Hq in Hl. unfold cst_at in Hl. rewrite Hn in Hl. congruence.
+    - specialize (Hev j Hj). unfold is_event, kind_at in Hev. rewrite Hn in Hev. destruct (ck e1); congruence. }
+  assert (Hheld : forall j e, In j l -> nth_error cbs j = Some e -> held e = false).
+  { intros j e Hl Hn. apply Hq in Hl. unfold cst_at in Hl. rewrite Hn in Hl. unfold held. injection Hl as ->. reflexivity. }
+  destruct Hc as [[Hl [Hs [Hp Hc]]]|[[c [Hl [Hp Hc]]]|[c [rest [Hr [Hl [Hp [Hne Hc]]]]]]]]; subst pc cbs'.
+  - (* nothing left *)
+    subst l sk. simpl. repeat split; auto; try discriminate; try constructor.
+    + intros []. + intros Hx. apply Hq in Hx. exact Hx. + rewrite Hf. discriminate.
+    + intros j e2 He. exists e2. auto. + intros j e1 He. exists e1. auto.
+  - (* the last one: the DecRef comes first *)
+    assert (Hcl : In c l) by (rewrite Hl; apply in_or_app; right; left; reflexivity).
+    assert (Hcs : ~ In c sk) by (intros Hx; rewrite Hl in Hnd; apply (NoDup_app_disj _ _ Hnd c Hx); left; reflexivity).
+    assert (Hskl : forall j, In j sk -> In j l) by (intros j Hj; rewrite Hl; apply in_or_app; left; exact Hj).
+    simpl. split; [repeat constructor; intros []|]. split; [|split; [exact Logic.I|split; [|split; [reflexivity|split; [repeat split; discriminate|split; [|split; [|split]]]]]]].
+    + intros c'. unfold cst_at. rewrite nth_mark. split.
+      * intros [<-|[]]. apply Hq in Hcl. unfold cst_at in Hcl. destruct (nth_error cbs c); [|discriminate].
+        apply memb_false in Hcs. rewrite Hcs. exact Hcl.
+      * destruct (nth_error cbs c') eqn:E; [|discriminate]. destruct (memb c' sk) eqn:Em; [simpl; discriminate|].
+        intros Hx. assert (Hin : In c' l) by (apply Hq; unfold cst_at; rewrite E; exact Hx).
+        rewrite Hl in Hin. apply in_app_or in Hin. destruct Hin as [Hin|[<-|[]]]; [|left; reflexivity].
+        apply memb_In in Hin. congruence.
+    + intros c'. unfold fir_at. rewrite nth_mark. split; [|discriminate].
+      specialize (Hf c'). unfold fir_at in Hf. destruct (nth_error cbs c'); [|discriminate].
+      destruct (memb c' sk); [simpl; discriminate|rewrite Hf; discriminate].
+    + intros j e2 He. rewrite nth_mark in He. destruct (nth_error cbs j) as [e1|] eqn:E; [|discriminate].
+      exists e1. split; [reflexivity|]. destruct (memb j sk) eqn:Em; injection He as <-; [|left; reflexivity].
+      apply memb_In in Em. destruct (Hsk j e1 Em (Hskl j Em) E). right; left. auto.
+    + intros j e1 He. rewrite nth_mark, He. eexists. split; [reflexivity|]. destruct (memb j sk); reflexivity.
+    + apply count_held_mark. intros j e Hj Hn. apply (Hheld j e); auto.
+    + apply count_cinl_mark.
+  - (* a callback that is not the last one is fired *)
+    assert (Hcl : In c l) by (rewrite Hl; apply in_or_app; right; left; reflexivity).
+    assert (Hcs : ~ In c sk) by (intros Hx; rewrite Hl in Hnd; apply (NoDup_app_disj _ _ Hnd c Hx); left; reflexivity).
+    assert (Hskl : forall j, In j sk -> In j l) by (intros j Hj; rewrite Hl; apply in_or_app; left; exact Hj).
+    assert (Hrl : forall j, In j rest -> In j l) by (intros j Hj; rewrite Hl; apply in_or_app; right; right; exact Hj).
+    assert (Hnd2 : NoDup (c :: rest)) by (rewrite Hl in Hnd; eapply NoDup_app_r; eauto).
+    assert (Hcr : ~ In c rest) by (inversion Hnd2; assumption).
+    assert (Hrs : forall j, In j rest -> ~ In j sk).
+    { intros j Hj Hx. rewrite Hl in Hnd. apply (NoDup_app_disj _ _ Hnd j Hx). right. exact Hj. }
+    destruct (nth_error cbs c) as [ec|] eqn:Ec.
+    2:{ exfalso. apply Hq in Hcl. unfold cst_at in Hcl. rewrite Ec in Hcl. discriminate. }
+    assert (Hecq : cst ec = CQueued) by (apply Hq in Hcl; unfold cst_at in Hcl; rewrite Ec in Hcl; congruence).
+    assert (Heck : ck ec <> KEvent).
+    { unfold is_event, kind_at in Hne. rewrite Ec in Hne. intros E. rewrite E in Hne. discriminate. }
+    simpl. split; [inversion Hnd2; assumption|]. split; [|split; [destruct rest; [congruence|exact Logic.I]|split; [|split; [reflexivity|split; [repeat split; discriminate|split; [|split; [|split]]]]]]].
+    + intros c'. unfold cst_at. rewrite nth_set_cst, nth_mark. split.
+      * intros Hin. assert (Hc' : c <> c') by (intros <-; contradiction).
+        apply Nat.eqb_neq in Hc'. rewrite Hc'. pose proof (Hrs c' Hin) as Hns. apply memb_false in Hns. rewrite Hns.
+        apply Hrl in Hin. apply Hq in Hin. unfold cst_at in Hin. destruct (nth_error cbs c'); [exact Hin|discriminate].
+      * destruct (nth_error cbs c') eqn:E; [|discriminate]. destruct (Nat.eqb c c') eqn:E1; [simpl; discriminate|].
+        destruct (memb c' sk) eqn:Em; [simpl; discriminate|]. intros Hx.
+        assert (Hin : In c' l) by (apply Hq; unfold cst_at; rewrite E; exact Hx).
+        rewrite Hl in Hin. apply in_app_or in Hin. destruct Hin as [Hin|[Hin|Hin]]; [| |exact Hin].
+        { apply memb_In in Hin. congruence. } { apply Nat.eqb_neq in E1. congruence. }
+    + intros c'. unfold fir_at. rewrite nth_set_cst, nth_mark. destruct (Nat.eqb c c') eqn:E1.
+      * apply Nat.eqb_eq in E1. subst c'. rewrite Ec. simpl. split; reflexivity.
+      * apply Nat.eqb_neq in E1. split; [|intros Hx; congruence].
+        specialize (Hf c'). unfold fir_at in Hf. destruct (nth_error cbs c'); [|discriminate].
+        destruct (memb c' sk); [simpl; discriminate|rewrite Hf; discriminate].
+    + intros j e2 He. rewrite nth_set_cst, nth_mark in He. destruct (nth_error cbs j) as [e1|] eqn:E; [|discriminate].
+      exists e1. split; [reflexivity|]. destruct (Nat.eqb c j) eqn:E1.
+      * apply Nat.eqb_eq in E1. subst j. apply memb_false in Hcs. rewrite Hcs in He. injection He as <-.
+        rewrite Ec in E. injection E as <-. right; right. auto.
+      * destruct (memb j sk) eqn:Em; injection He as <-; [|left; reflexivity].
+        apply memb_In in Em. destruct (Hsk j e1 Em (Hskl j Em) E). right; left. auto.
+    + intros j e1 He. rewrite nth_set_cst, nth_mark, He. eexists. split; [reflexivity|].
+      destruct (Nat.eqb c j); destruct (memb j sk); reflexivity.
+    + rewrite count_held_set_cst_unheld; [| |reflexivity].
+      * apply count_held_mark. intros j e Hj Hn. apply (Hheld j e); auto.
+      * intros e He. rewrite nth_mark, Ec in He. apply memb_false in Hcs. rewrite Hcs in He. injection He as <-.
+        unfold held. rewrite Hecq. reflexivity.
+    + rewrite count_cinl_set_cst. apply count_cinl_mark.
+Qed.
+
+(* the state in which the fulfiller is between two callbacks: everything of the invariant except that its program
+   counter is stale; [l] is what is left of the list *)
+Record PreWalk (s1 : st) (l : list nat) : Prop := {
+  W_nodup : NoDup l;
+  W_q : forall c, In c l <-> cst_at (cs s1) c = Some CQueued;
+  W_nofire : forall c, fir_at (cs s1) c = false;
+  W_w : w s1 = WRes;
+  W_slot : exists r, val s1 = Some r /\ slot s1 = SetV r;
+  W_refs : refs s1 = 3 + count live (hs s1) + count held (cs s1);
+  W_acct : alive s1 = negb (Nat.eqb (refs s1) 0) /\ frees s1 = (if alive s1 then 0 else 1) /\
+           under s1 = 0 /\ uaf s1 = 0 /\ (dying s1 = true -> alive s1 = false);
+  W_cb : forall c e, nth_error (cs s1) c = Some e -> cb_ok s1 c e;
+  W_h : forall h pc, nth_error (hs s1) h = Some pc -> h_ok s1 pc;
+  W_log : LogI s1;
+  W_fail : FailI s1
+}.
+
+Lemma walk_inv s1 l pc cbs' : PreWalk s1 l -> advance l (cs s1) = (pc, cbs') -> Inv (set_fpc pc (set_cs cbs' s1)).
+Proof.
+  intros P H.
+  destruct (advance_pend l (cs s1) pc cbs' H (W_nodup _ _ P) (W_q _ _ P) (W_nofire _ _ P))
+    as [A1 [A2 [A3 [A4 [A5 [[A6a [A6b [A6c A6d]]] [A7 [A8 [A9 A10]]]]]]]]].
+  constructor.
+  - unfold AcctI. sf. destruct (W_acct _ _ P) as [B1 B2]. split; [|split; [exact B1|exact B2]].
+    rewrite (W_refs _ _ P), A5, A9. reflexivity.
+  - unfold WordI. sf. destruct (W_slot _ _ P) as [r [Hv Hs]].
+    destruct pc; try congruence; (split; [exact (W_w _ _ P)|exists r; auto]).
+  - unfold PendI, pend, cur. sf. rewrite (W_w _ _ P). split; [exact A1|split; [exact A2|split; [exact A3|]]].
+    intros c. rewrite A4. unfold cur_of. reflexivity.
+  - intros j e2 He. sf. destruct (A7 j e2 He) as [e1 [He1 Hc]]. pose proof (W_cb _ _ P j e1 He1) as Hok.
+    assert (Hnf : forall mv dc, cst e1 <> CConn mv dc).
+    { intros mv dc E. pose proof (W_nofire _ _ P j) as F. unfold fir_at in F. rewrite He1, E in F. discriminate. }
+    destruct Hc as [->|[[Hq [Hk ->]]|[Hq [Hk ->]]]].
+    + eapply cb_ok_noexcl; [exact Hok|intros dc; apply Hnf|auto|auto].
+    + destruct Hok as [_ [_ B3]]. rewrite Hq in B3. unfold cb_ok. simpl. rewrite Hk. simpl.
+      split; [intros _; exact (W_w _ _ P)|split; [exact Logic.I|exact B3]].
+    + destruct Hok as [_ [_ B3]]. rewrite Hq in B3. unfold cb_ok. simpl.
+      split; [intros _; exact (W_w _ _ P)|split; [exact Hk|exact B3]].
+  - intros h pc' Hh. sf. eapply h_ok_frame; [apply (W_h _ _ P h); exact Hh|auto|auto|exact A8].
+  - intros Hm. sf. destruct (W_slot _ _ P) as [r [_ Hs]]. congruence.
+  - exact (W_log _ _ P).
+  - pose proof (W_fail _ _ P) as F. unfold FailI in *. sf. rewrite A10. exact F.
+Qed.
+
+(* ---- the fulfilling thread ------------------------------------------------------------------------------------------ *)
+
+Lemma forall_good_nil s l : val s = None -> Forall (good_val s) l -> l = [].
+Proof.
+  intros Hv H. destruct l as [|x l]; [reflexivity|]. inversion H; subst. destruct H2 as [E N]. congruence.
+Qed.
+
+Lemma all_queued_when_stack s l : Inv s -> w s = WStack l -> forall c e, nth_error (cs s) c = Some e -> cst e = CQueued.
+Proof.
+  intros I Hw c e Hc. destruct (I_cb s I c e Hc) as [B1 _]. destruct (cst e) eqn:E; auto;
+    (assert (w s = WRes) by (apply B1; discriminate); congruence).
+Qed.
+
+Lemma inv_step_set s r s' : Inv s -> step_f s (ESet r) = Some s' -> Inv s'.
+Proof.
+  intros I H. cbn [step_f] in H. destruct (fpc s) eqn:Hf; try discriminate. injection H as <-.
+  pose proof (I_word s I) as W. unfold WordI in W. rewrite Hf in W. destruct W as [W1 [W2 [l W3]]].
+  destruct (I_log s I) as [L1 [L2 L3]].
+  pose proof (forall_good_nil s _ W2 L1) as G1. pose proof (forall_good_nil s _ W2 L2) as G2.
+  constructor.
+  - destruct (I_acct s I) as [A1 A2]. unfold AcctI. sf. rewrite Hf in A1. split; [exact A1|exact A2].
+  - unfold WordI. sf. split; [exists r; auto|exists l; exact W3].
+  - pose proof (I_pendg s I) as P. unfold PendI, pend, cur in *. sf. rewrite Hf, W3 in *. exact P.
+  - intros c e Hc. sf. pose proof (all_queued_when_stack s l I W3 c e Hc) as Hq.
+    destruct (I_cb s I c e Hc) as [B1 [B2 B3]]. unfold cb_ok. sf. rewrite Hq in *. auto.
+  - intros h pc Hh. sf. eapply h_ok_frame; [apply (I_h s I h); exact Hh|auto|auto|intros; eauto].
+  - intros Hm. sf. discriminate.
+  - unfold LogI. sf. rewrite G1, G2. split; [constructor|split; [constructor|exact L3]].
+  - exact (I_fail s I).
+Qed.
+
+Lemma inv_step_copyp s s' : Inv s -> alive s = true -> step_f s ECopyP = Some s' -> Inv s'.
+Proof.
+  intros I Ha H. cbn [step_f] in H. destruct (fpc s) eqn:Hf; try discriminate. injection H as <-.
+  destruct (no_excl_f s I) as [X1 X2]; [congruence|intros c; congruence|].
+  pose proof (I_word s I) as W. unfold WordI in W. rewrite Hf in W. destruct W as [W1 [W2 [l W3]]].
+  constructor.
+  - to_st (set_fpc (fpc s) (set_hs (hs s ++ [H0]) (set_cs (cs s) (inc s)))).
+    apply (acct_inc s _ _ _ (I_acct s I) Ha). rewrite count_app. simpl. rewrite (I_refs s I). lia.
+  - exact (I_wordg s I).
+  - exact (I_pendg s I).
+  - intros c e Hc. sf. eapply cb_ok_noexcl; [apply (I_cb s I); exact Hc|intros dc; eapply X2; eauto|auto|auto].
+  - intros h' pc'' Hh. sf. rewrite nth_app_one in Hh. destruct (Nat.ltb h' (length (hs s))) eqn:E1.
+    + eapply h_ok_noexcl; [apply (I_h s I h'); exact Hh|intros ->; eapply X1; eauto|auto|intros; eauto].
+    + destruct (Nat.eqb h' (length (hs s))); [|discriminate]. injection Hh as <-. exact Logic.I.
+  - intros Hmv. sf. congruence.
+  - exact (I_log s I).
+  - unfold FailI. sf. rewrite count_app. pose proof (I_fail s I) as F. unfold FailI in F. simpl. lia.
+Qed.
+
+Lemma inv_step_xchg s s' : Inv s -> step_f s EXchg = Some s' -> Inv s'.
+Proof.
+  intros I H. cbn [step_f] in H. destruct (fpc s) eqn:Hf; try discriminate. destruct (w s) eqn:Hw; [|discriminate].
+  destruct (advance l (cs s)) as [pc cbs'] eqn:Ea. injection H as <-.
+  pose proof (I_word s I) as W. unfold WordI in W. rewrite Hf in W. destruct W as [[r [W1 W2]] _].
+  to_st (set_fpc pc (set_cs cbs' (set_w WRes s))).
+  apply (walk_inv (set_w WRes s) l); [|exact Ea].
+  pose proof (I_pendg s I) as [P1 [P2 [P3 P4]]]. unfold pend, cur in *. rewrite Hw, Hf in *. simpl in P1, P2, P4.
+  constructor; sf; auto.
+  - intros c. destruct (fir_at (cs s) c) eqn:E; [|reflexivity]. apply P4 in E. discriminate.
+  - exists r. auto.
+  - rewrite (I_refs s I), Hf. reflexivity.
+  - destruct (I_acct s I) as [_ A]. exact A.
+  - intros c e Hc. eapply cb_ok_frame; [apply (I_cb s I); exact Hc|auto|auto|auto].
+  - intros h pc' Hh. eapply h_ok_frame; [apply (I_h s I h); exact Hh|auto|auto|intros; eauto].
+  - exact (I_log s I).
+  - exact (I_fail s I).
+Qed.
+
+Lemma wordI_later s s' : WordI s -> w s = WRes -> w s' = w s -> slot s' = slot s -> val s' = val s ->
+  fpc s' <> F0 -> fpc s' <> F1 -> WordI s'.
+Proof.
+  intros W Hw E1 E2 E3 N0 N1. unfold WordI in *. rewrite E1, E2, E3.
+  assert (X : w s = WRes /\ exists r, val s = Some r /\ (slot s = SetV r \/ slot s = Moved)).
+  { destruct (fpc s); try exact W.
+    - destruct W as [_ [_ [l Hl]]]. congruence.
+    - destruct W as [_ [l Hl]]. congruence. }
+  destruct (fpc s'); try congruence; exact X.
+Qed.
+
+Lemma inv_decf_simple s f' :
+  Inv s -> alive s = true -> prom (fpc s) = S (prom f') -> w s = WRes -> pend s = [] -> cur s = None ->
+  f' <> F0 -> f' <> F1 -> pend_of WRes f' = [] -> cur_of f' = None -> (forall c, fpc s <> FLast c) ->
+  Inv (set_fpc f' (dec s)).
+Proof.
+  intros I Ha Hp Hw Hpe Hcu N0 N1 Hpe' Hcu' Hnl.
+  destruct (no_excl_f s I) as [X1 X2]; [intros E; rewrite E in Hp; discriminate|exact Hnl|].
+  constructor.
+  - to_st (set_fpc f' (set_hs (hs (dec s)) (set_cs (cs (dec s)) (dec s)))).
+    apply (acct_dec s _ _ _ (I_acct s I) Ha). decp. rewrite (I_refs s I). lia.
+  - apply (wordI_later s); sf; decp; auto. exact (I_wordg s I).
+  - destruct (I_pendg s I) as [P1 [P2 [P3 P4]]]. rewrite Hpe in P2. rewrite Hcu in P4.
+    assert (E1 : pend (set_fpc f' (dec s)) = []) by (unfold pend; sf; decp; rewrite Hw; exact Hpe').
+    assert (E2 : cur (set_fpc f' (dec s)) = None) by (unfold cur; sf; exact Hcu').
+    unfold PendI. rewrite E1, E2. sf. decp.
+    split; [constructor|split; [exact P2|split; [|exact P4]]].
+    destruct f'; auto. destruct rest; [discriminate|auto].
+  - intros c e Hc. sf. decp. eapply cb_ok_noexcl; [apply (I_cb s I); exact Hc|intros dc; eapply X2; eauto|sf; decp; auto|sf; decp; auto].
+  - intros h pc Hh. sf. decp.
+    eapply h_ok_noexcl; [apply (I_h s I h); exact Hh|intros ->; eapply X1; eauto|sf; decp; auto|sf; decp; intros; eauto].
+  - intros Hm. sf. decp. exact (I_moved s I Hm).
+  - pose proof (I_log s I) as L. unfold LogI, good_val in *. sf. decp. exact L.
+  - pose proof (I_fail s I) as F. unfold FailI in *. sf. decp. exact F.
+Qed.
+
+Lemma fpc_word s : Inv s -> fpc s <> F0 -> fpc s <> F1 -> w s = WRes.
+Proof.
+  intros I N0 N1. pose proof (I_word s I) as W. unfold WordI in W. destruct (fpc s); try congruence; apply W.
+Qed.
+
+Lemma inv_step_decf s s' : Inv s -> alive s = true -> step_f s EDecF = Some s' -> Inv s'.
+Proof.
+  intros I Ha H. cbn [step_f] in H. destruct (fpc s) as [ | | |[c|]| | | | ] eqn:Hf; try discriminate.
+  - (* the DecRef before the last callback *)
+    assert (Hw : w s = WRes) by (apply fpc_word; [exact I|congruence|congruence]).
+    destruct (no_excl_f s I) as [X1 X2]; [congruence|intros c'; congruence|].
+    destruct (I_pendg s I) as [P1 [P2 [P3 P4]]]. unfold pend in P1, P2. unfold cur in P4. rewrite Hw, Hf in P1, P2. rewrite Hf in P4. simpl in P2.
+    assert (Hq : cst_at (cs s) c = Some CQueued) by (apply P2; left; reflexivity).
+    unfold cst_at in Hq. destruct (nth_error (cs s) c) as [ec|] eqn:Ec; [|discriminate]. injection Hq as Hq.
+    assert (Hnf : forall c', fir_at (cs s) c' = false).
+    { intros c'. destruct (fir_at (cs s) c') eqn:E; [|reflexivity]. apply P4 in E. discriminate. }
+    assert (Hheld : held ec = false) by (unfold held; rewrite Hq; reflexivity).
+    destruct (I_cb s I c ec Ec) as [B1 [B2 B3]]. rewrite Hq in B3.
+    destruct (is_event (cs s) c) eqn:Ev.
+    + (* the event of a Wait: fired at once *)
+      injection H as <-.
+      assert (Hk : ck ec = KEvent) by (unfold is_event, kind_at in Ev; rewrite Ec in Ev; destruct (ck ec); congruence).
+      constructor.
+      * to_st (set_fpc FD2 (set_hs (hs (dec s)) (set_cs (set_cst (cs s) c CDone) (dec s)))).
+        apply (acct_dec s _ _ _ (I_acct s I) Ha). decp. rewrite (I_refs s I), Hf.
+        pose proof (count_set_cst held _ _ CDone _ Ec) as C. rewrite Hheld in C. simpl in C. simpl. lia.
+      * apply (wordI_later s); sf; decp; auto; try discriminate. exact (I_wordg s I).
+      * unfold PendI, pend, cur. sf. decp. rewrite Hw. simpl.
+        split; [constructor|split; [|split; [exact Logic.I|]]].
+        { intros c'. unfold cst_at. rewrite nth_set_cst. split; [intros []|].
+          destruct (nth_error (cs s) c') eqn:E; [|discriminate]. destruct (Nat.eqb c c') eqn:E1; [simpl; discriminate|].
+          intros Hx. assert (In c' [c]) by (apply P2; unfold cst_at; rewrite E; exact Hx).
+          destruct H as [<-|[]]. rewrite Nat.eqb_refl in E1. discriminate. }
+        { intros c'. split; [|discriminate]. unfold fir_at. rewrite nth_set_cst.
+          specialize (Hnf c'). unfold fir_at in Hnf. destruct (nth_error (cs s) c'); [|discriminate].
+          destruct (Nat.eqb c c'); [simpl; discriminate|rewrite Hnf; discriminate]. }
+      * intros j e2 He. sf. decp. rewrite nth_set_cst in He. destruct (nth_error (cs s) j) as [e1|] eqn:E; [|discriminate].
+        destruct (Nat.eqb c j) eqn:E1; injection He as <-.
+        { apply Nat.eqb_eq in E1. subst j. rewrite Ec in E. injection E as <-. unfold cb_ok. simpl. rewrite Hk. simpl.
+          split; [intros _; sf; decp; exact Hw|split; [exact Logic.I|exact B3]]. }
+        { eapply cb_ok_noexcl; [apply (I_cb s I); exact E|intros dc; eapply X2; eauto|sf; decp; auto|sf; decp; auto]. }
+      * intros h pc Hh. sf. decp.
+        eapply h_ok_noexcl; [apply (I_h s I h); exact Hh|intros ->; eapply X1; eauto|sf; decp; auto|].
+        sf. decp. intros j e1 He. rewrite nth_set_cst, He. eexists. split; [reflexivity|]. destruct (Nat.eqb c j); reflexivity.
+      * intros Hm. sf. decp. exfalso. destruct (I_moved s I Hm) as [_ M]. specialize (M c ec Ec). congruence.
+      * pose proof (I_log s I) as L. unfold LogI, good_val in *. sf. decp. exact L.
+      * pose proof (I_fail s I) as F. unfold FailI in *. sf. decp. rewrite count_cinl_set_cst. exact F.
+    + (* the last callback is fired *)
+      injection H as <-.
+      assert (Hk : ck ec <> KEvent) by (unfold is_event, kind_at in Ev; rewrite Ec in Ev; intros E; rewrite E in Ev; discriminate).
+      constructor.
+      * to_st (set_fpc (FLast c) (set_hs (hs (dec s)) (set_cs (set_cst (cs s) c CFireF) (dec s)))).
+        apply (acct_dec s _ _ _ (I_acct s I) Ha). decp. rewrite (I_refs s I), Hf.
+        pose proof (count_set_cst held _ _ CFireF _ Ec) as C. rewrite Hheld in C. simpl in C. simpl. lia.
+      * apply (wordI_later s); sf; decp; auto; try discriminate. exact (I_wordg s I).
+      * unfold PendI, pend, cur. sf. decp. rewrite Hw. simpl.
+        split; [constructor|split; [|split; [exact Logic.I|]]].
+        { intros c'. unfold cst_at. rewrite nth_set_cst. split; [intros []|].
+          destruct (nth_error (cs s) c') eqn:E; [|discriminate]. destruct (Nat.eqb c c') eqn:E1; [simpl; discriminate|].
+          intros Hx. assert (In c' [c]) by (apply P2; unfold cst_at; rewrite E; exact Hx).
+          destruct H as [<-|[]]. rewrite Nat.eqb_refl in E1. discriminate. }
+        { intros c'. unfold fir_at. rewrite nth_set_cst. destruct (Nat.eqb c c') eqn:E1.
+          - apply Nat.eqb_eq in E1. subst c'. rewrite Ec. simpl. split; reflexivity.
+          - apply Nat.eqb_neq in E1. split; [|intros Hx; congruence].
+            specialize (Hnf c'). unfold fir_at in Hnf. destruct (nth_error (cs s) c'); [|discriminate]. rewrite Hnf. discriminate. }
+      * intros j e2 He. sf. decp. rewrite nth_set_cst in He. destruct (nth_error (cs s) j) as [e1|] eqn:E; [|discriminate].
+        destruct (Nat.eqb c j) eqn:E1; injection He as <-.
+        { apply Nat.eqb_eq in E1. subst j. rewrite Ec in E. injection E as <-. unfold cb_ok. simpl.
+          split; [intros _; sf; decp; exact Hw|split; [exact Hk|exact B3]]. }
+        { eapply cb_ok_noexcl; [apply (I_cb s I); exact E|intros dc; eapply X2; eauto|sf; decp; auto|sf; decp; auto]. }
+      * intros h pc Hh. sf. decp.
+        eapply h_ok_noexcl; [apply (I_h s I h); exact Hh|intros ->; eapply X1; eauto|sf; decp; auto|].
+        sf. decp. intros j e1 He. rewrite nth_set_cst, He. eexists. split; [reflexivity|]. destruct (Nat.eqb c j); reflexivity.
+      * intros Hm. sf. decp. exfalso. destruct (I_moved s I Hm) as [_ M]. specialize (M c ec Ec). congruence.
+      * pose proof (I_log s I) as L. unfold LogI, good_val in *. sf. decp. exact L.
+      * pose proof (I_fail s I) as F. unfold FailI in *. sf. decp. rewrite count_cinl_set_cst. exact F.
+  - injection H as <-. apply inv_decf_simple; auto; try (rewrite Hf; reflexivity); try discriminate.
+    + apply fpc_word; [exact I|congruence|congruence].
+    + unfold pend. rewrite Hf. destruct (w s) eqn:Hw; [|reflexivity].
+      assert (w s = WRes) by (apply fpc_word; [exact I|congruence|congruence]). congruence.
+    + unfold cur. rewrite Hf. reflexivity.
+    + intros c. congruence.
+  - injection H as <-. apply inv_decf_simple; auto; try (rewrite Hf; reflexivity); try discriminate.
+    + apply fpc_word; [exact I|congruence|congruence].
+    + unfold pend. rewrite Hf. destruct (w s) eqn:Hw; [|reflexivity].
+      assert (w s = WRes) by (apply fpc_word; [exact I|congruence|congruence]). congruence.
+    + unfold cur. rewrite Hf. reflexivity.
+    + intros c. congruence.
+  - injection H as <-. apply inv_decf_simple; auto; try (rewrite Hf; reflexivity); try discriminate.
+    + apply fpc_word; [exact I|congruence|congruence].
+    + unfold pend. rewrite Hf. destruct (w s) eqn:Hw; [|reflexivity].
+      assert (w s = WRes) by (apply fpc_word; [exact I|congruence|congruence]). congruence.
+    + unfold cur. rewrite Hf. reflexivity.
+    + intros c. congruence.
+Qed.
+
+(* the Here() of the callback being fired has returned: its entry [e] becomes [e'] (done, or holding a reference) and
+   the fulfiller moves on *)
+Lemma finish_inv s c e e' rf :
+  Inv s -> alive s = true -> cur s = Some c -> nth_error (cs s) c = Some e ->
+  firing (cst e') = false -> cst e' <> CQueued -> ck e' = ck e -> cinl e' = cinl e ->
+  rf = refs s + (if held e' then 1 else 0) ->
+  slot s <> Moved ->
+  (forall s2, w s2 = WRes -> val s2 = val s -> cb_ok s2 c e') ->
+  Inv (finishF (set_cs (upd (cs s) c e') (set_refs rf s))).
+Proof.
+  intros I Ha Hcur Hc Hnf Hnq Hck Hci Hrf Hnm Hok'.
+  assert (Hfp : (exists rest, fpc s = FWalk c rest) \/ fpc s = FLast c).
+  { unfold cur in Hcur. destruct (fpc s); try discriminate; injection Hcur as ->; eauto. }
+  assert (Hw : w s = WRes) by (apply fpc_word; [exact I|destruct Hfp as [[r E]|E]; congruence|destruct Hfp as [[r E]|E]; congruence]).
+  assert (Hfire : fir_at (cs s) c = true) by (apply (I_cur s I); exact Hcur).
+  assert (Hef : firing (cst e) = true) by (unfold fir_at in Hfire; rewrite Hc in Hfire; exact Hfire).
+  assert (Hheld : held e = false) by (unfold held; destruct (cst e); simpl in Hef; congruence).
+  assert (Hother : forall j ej, j <> c -> nth_error (cs s) j = Some ej -> firing (cst ej) = false).
+  { intros j ej Hj He. destruct (firing (cst ej)) eqn:E; [|reflexivity]. exfalso. apply Hj.
+    assert (fir_at (cs s) j = true) by (unfold fir_at; rewrite He; exact E). apply (I_cur s I) in H. congruence. }
+  assert (Hnoout : forall h, nth_error (hs s) h <> Some (HOut true)).
+  { intros h Hh. destruct (excl_out s h I Hh) as [Hf _]. destruct Hfp as [[r E]|E]; congruence. }
+  set (s1 := set_cs (upd (cs s) c e') (set_refs rf s)).
+  assert (Hslot : exists r, val s = Some r /\ slot s = SetV r).
+  { destruct (word_res s I Hw) as [r [Hv [Hs|Hs]]]; [eauto|congruence]. }
+  assert (Hcount : count held (upd (cs s) c e') = count held (cs s) + (if held e' then 1 else 0)).
+  { pose proof (count_upd held _ _ _ e' Hc) as C. rewrite Hheld in C. lia. }
+  assert (Hcinl : count cinl (upd (cs s) c e') = count cinl (cs s)).
+  { pose proof (count_upd cinl _ _ _ e' Hc) as C. rewrite Hci in C. destruct (cinl e); lia. }
+  assert (Hcb1 : forall j ej, nth_error (cs s1) j = Some ej -> cb_ok s1 j ej).
+  { intros j ej He. unfold s1 in He. sf. rewrite nth_upd in He. destruct (Nat.eqb c j) eqn:E.
+    - apply Nat.eqb_eq in E. subst j. rewrite Hc in He. injection He as <-. apply Hok'; reflexivity || exact Hw.
+    - apply Nat.eqb_neq in E. eapply cb_ok_noexcl; [apply (I_cb s I); exact He| |auto|auto].
+      intros dc Ex. assert (firing (cst ej) = false) by (eapply Hother; eauto). rewrite Ex in H. discriminate. }
+  assert (Hkinds : forall j ej, nth_error (cs s) j = Some ej -> exists e2, nth_error (cs s1) j = Some e2 /\ ck e2 = ck ej).
+  { intros j ej He. unfold s1. sf. rewrite nth_upd. destruct (Nat.eqb c j) eqn:E.
+    - apply Nat.eqb_eq in E. subst j. rewrite He. rewrite Hc in He. injection He as <-. eauto.
+    - eauto. }
+  assert (Hh1 : forall h pc, nth_error (hs s1) h = Some pc -> h_ok s1 pc).
+  { intros h pc Hh. unfold s1 in Hh. sf. eapply h_ok_noexcl; [apply (I_h s I h); exact Hh|intros ->; eapply Hnoout; eauto|auto|exact Hkinds]. }
+  assert (Hq1 : forall j, cst_at (cs s1) j = Some CQueued <-> (j <> c /\ cst_at (cs s) j = Some CQueued)).
+  { intros j. unfold s1, cst_at. sf. rewrite nth_upd. destruct (Nat.eqb c j) eqn:E.
+    - apply Nat.eqb_eq in E. subst j. rewrite Hc. split; [intros Hx; congruence|intros [Hx _]; congruence].
+    - apply Nat.eqb_neq in E. split; [intros Hx; split; [congruence|exact Hx]|intros [_ Hx]; exact Hx]. }
+  assert (Hf1 : forall j, fir_at (cs s1) j = false).
+  { intros j. unfold s1, fir_at. sf. rewrite nth_upd. destruct (Nat.eqb c j) eqn:E.
+    - apply Nat.eqb_eq in E. subst j. rewrite Hc. exact Hnf.
+    - apply Nat.eqb_neq in E. destruct (nth_error (cs s) j) eqn:Ej; [|reflexivity]. eapply Hother; eauto. }
+  assert (Hcq : cst_at (cs s) c <> Some CQueued).
+  { unfold cst_at. rewrite Hc. intros Hx. injection Hx as Hx. rewrite Hx in Hef. discriminate. }
+  destruct (I_acct s I) as [A1 [A2 [A3 [A4 [A5 A6]]]]].
+  destruct (I_pendg s I) as [P1 [P2 [P3 P4]]].
+  assert (Hal : alive s = negb (Nat.eqb rf 0)).
+  { rewrite Ha. apply (alive_refs s I) in Ha. destruct rf; [lia|reflexivity]. }
+  destruct Hfp as [[rest Hf]|Hf].
+  - (* more callbacks follow *)
+    unfold finishF. fold s1. replace (fpc s1) with (fpc s) by reflexivity. rewrite Hf.
+    destruct (advance rest (cs s1)) as [pc cbs'] eqn:Ea.
+    apply (walk_inv s1 rest); [|exact Ea].
+    unfold pend in P1, P2. rewrite Hw, Hf in P1, P2. simpl in P1, P2.
+    constructor; auto.
+    + intros j. rewrite Hq1. rewrite <- P2. split; [|tauto]. intros Hin. split; [|exact Hin].
+      intros ->. apply Hcq. apply P2. exact Hin.
+    + unfold s1. sf. rewrite Hcount, Hrf, A1, Hf. simpl. lia.
+    + exact (I_log s I).
+    + pose proof (I_fail s I) as F. unfold FailI in *. unfold s1. sf. rewrite Hcinl. exact F.
+  - (* it was the last one *)
+    unfold finishF. fold s1. replace (fpc s1) with (fpc s) by reflexivity. rewrite Hf.
+    unfold pend in P1, P2. rewrite Hw, Hf in P1, P2. simpl in P1, P2.
+    constructor.
+    + unfold AcctI, s1. sf. rewrite Hcount, Hrf, A1, Hf. simpl. repeat split; auto; try lia.
+    + unfold WordI, s1. sf. destruct Hslot as [r [Hv Hs]]. split; [exact Hw|exists r; auto].
+    + unfold PendI, pend, cur, s1. sf. rewrite Hw. simpl. fold s1. split; [constructor|split; [|split; [exact Logic.I|]]].
+      * intros j. split; [intros []|]. intros Hx. apply Hq1 in Hx. destruct Hx as [_ Hx]. apply P2 in Hx. exact Hx.
+      * intros j. rewrite Hf1. split; discriminate.
+    + intros j ej He. eapply cb_ok_frame; [apply Hcb1; exact He|auto| |auto].
+      intros dc Ex. exfalso. pose proof (Hf1 j) as F. unfold fir_at in F. change (cs (set_fpc FD2 s1)) with (cs s1) in He.
+      rewrite He, Ex in F. discriminate.
+    + intros h pc Hh. eapply h_ok_frame; [apply (Hh1 h); exact Hh|auto|auto|intros; eauto].
+    + intros Hm. exfalso. apply Hnm. exact Hm.
+    + exact (I_log s I).
+    + pose proof (I_fail s I) as F. unfold FailI in *. unfold s1. sf. rewrite Hcinl. exact F.
+Qed.
+
+(* an entry of the callback table changes (neither registered before nor after, still or still not being fired),
+   possibly together with a DecRef by its owner *)
+Lemma inv_cb_upd s c e e' (d : bool) :
+  Inv s -> alive s = true -> nth_error (cs s) c = Some e ->
+  cst e <> CQueued -> cst e <> CDone -> cst e' <> CQueued -> firing (cst e') = firing (cst e) -> ck e' = ck e -> cinl e' = cinl e ->
+  (if d then held e = true /\ held e' = false else held e' = held e) ->
+  (forall s2, w s2 = WRes -> val s2 = val s -> refs s2 = (if d then refs s - 1 else refs s) -> fpc s2 = fpc s -> cb_ok s2 c e') ->
+  Inv (set_cs (upd (cs s) c e') (if d then dec s else s)).
+Proof.
+  intros I Ha Hc Hq Hnd Hq' Hfi Hck Hci Hh Hok'.
+  assert (Hw : w s = WRes) by (apply (I_cb s I c e Hc); exact Hq).
+  assert (Hcinl : count cinl (upd (cs s) c e') = count cinl (cs s)).
+  { pose proof (count_upd cinl _ _ _ e' Hc) as C. rewrite Hci in C. destruct (cinl e); lia. }
+  assert (Hne : d = true -> no_excl s).
+  { intros ->. destruct Hh as [Hh _]. eapply no_excl_c; eauto. }
+  assert (Hcsq : forall j, cst_at (upd (cs s) c e') j = Some CQueued <-> cst_at (cs s) j = Some CQueued).
+  { intros j. unfold cst_at. rewrite nth_upd. destruct (Nat.eqb c j) eqn:E; [|reflexivity].
+    apply Nat.eqb_eq in E. subst j. rewrite Hc. split; intros Hx; congruence. }
+  assert (Hfir : forall j, fir_at (upd (cs s) c e') j = fir_at (cs s) j).
+  { intros j. unfold fir_at. rewrite nth_upd. destruct (Nat.eqb c j) eqn:E; [|reflexivity].
+    apply Nat.eqb_eq in E. subst j. rewrite Hc. exact Hfi. }
+  assert (Hkinds : forall j ej, nth_error (cs s) j = Some ej -> exists e2, nth_error (upd (cs s) c e') j = Some e2 /\ ck e2 = ck ej).
+  { intros j ej He. rewrite nth_upd. destruct (Nat.eqb c j) eqn:E; [|eauto].
+    apply Nat.eqb_eq in E. subst j. rewrite He. rewrite Hc in He. injection He as <-. eauto. }
+  pose proof (count_upd held _ _ _ e' Hc) as CH.
+  set (s0 := if d then dec s else s).
+  assert (E_w : w s0 = w s) by (unfold s0; destruct d; decp; reflexivity).
+  assert (E_slot : slot s0 = slot s) by (unfold s0; destruct d; decp; reflexivity).
+  assert (E_val : val s0 = val s) by (unfold s0; destruct d; decp; reflexivity).
+  assert (E_fpc : fpc s0 = fpc s) by (unfold s0; destruct d; decp; reflexivity).
+  assert (E_hs : hs s0 = hs s) by (unfold s0; destruct d; decp; reflexivity).
+  assert (E_cs : cs s0 = cs s) by (unfold s0; destruct d; decp; reflexivity).
+  assert (E_gots : gots s0 = gots s) by (unfold s0; destruct d; decp; reflexivity).
+  assert (E_iruns : iruns s0 = iruns s) by (unfold s0; destruct d; decp; reflexivity).
+  assert (E_nfail : nfail s0 = nfail s) by (unfold s0; destruct d; decp; reflexivity).
+  assert (E_readys : readys s0 = readys s) by (unfold s0; destruct d; decp; reflexivity).
+  assert (E_refs : refs s0 = if d then refs s - 1 else refs s) by (unfold s0; destruct d; decp; reflexivity).
+  constructor.
+  - destruct d.
+    + destruct Hh as [H1 H2]. rewrite H1, H2 in CH.
+      to_st (set_fpc (fpc (dec s)) (set_hs (hs (dec s)) (set_cs (upd (cs s) c e') (dec s)))).
+      apply (acct_dec s _ _ _ (I_acct s I) Ha). decp. rewrite (I_refs s I). lia.
+    + rewrite Hh in CH.
+      to_st (set_fpc (fpc s) (set_hs (hs s) (set_cs (upd (cs s) c e') s))).
+      apply (acct_same s _ _ _ (I_acct s I)). destruct (held e); lia.
+  - pose proof (I_wordg s I) as W. unfold WordI in *. sf. rewrite E_fpc, E_slot, E_val, E_w. exact W.
+  - destruct (I_pendg s I) as [P1 [P2 [P3 P4]]]. unfold PendI, pend, cur in *. sf. rewrite E_fpc, E_w.
+    split; [exact P1|split; [|split; [exact P3|]]].
+    + intros j. rewrite Hcsq. apply P2.
+    + intros j. rewrite Hfir. apply P4.
+  - intros j e2 He. sf. rewrite nth_upd in He. destruct (Nat.eqb c j) eqn:E.
+    + apply Nat.eqb_eq in E. subst j. rewrite Hc in He. injection He as <-. apply Hok'; sf; auto. rewrite E_w. exact Hw.
+    + destruct d.
+      * destruct (Hne eq_refl) as [_ X2].
+        eapply cb_ok_noexcl; [apply (I_cb s I); exact He|intros dc; eapply X2; eauto|sf; rewrite E_w; auto|sf; auto].
+      * eapply cb_ok_frame; [apply (I_cb s I); exact He|sf; auto|sf; auto|sf; auto].
+  - intros h pc Hh'. sf. rewrite E_hs in Hh'. destruct d.
+    + destruct (Hne eq_refl) as [X1 _].
+      eapply h_ok_noexcl; [apply (I_h s I h); exact Hh'|intros ->; eapply X1; eauto|sf; rewrite E_w; auto|sf; exact Hkinds].
+    + eapply h_ok_frame; [apply (I_h s I h); exact Hh'|sf; auto|sf; auto|sf; exact Hkinds].
+  - intros Hm. sf. rewrite E_slot in Hm. rewrite E_hs. destruct (I_moved s I Hm) as [M1 M2]. split; [exact M1|].
+    exfalso. specialize (M2 c e Hc). congruence.
+  - pose proof (I_log s I) as L. unfold LogI, good_val in *. sf. rewrite E_val, E_gots, E_iruns, E_readys. exact L.
+  - pose proof (I_fail s I) as F. unfold FailI in *. sf. rewrite E_nfail, E_iruns, E_hs, Hcinl. exact F.
+Qed.
+
+Lemma add_cv_upd l c x v e : nth_error l c = Some e -> add_cv l c x v = upd l c (with_cv e x v).
+Proof. intros H. unfold add_cv. rewrite H. reflexivity. Qed.
+Lemma set_cst_upd l c x e : nth_error l c = Some e -> set_cst l c x = upd l c (with_cst e x).
+Proof. intros H. unfold set_cst. rewrite H. reflexivity. Qed.
+
+Lemma cur_fpc s c : cur s = Some c -> fpc s <> F0 /\ fpc s <> F1 /\ fpc s <> FDone /\ 2 <= prom (fpc s).
+Proof. unfold cur. destruct (fpc s); try discriminate; intros _; simpl; repeat split; try discriminate; lia. Qed.
+
+Lemma inv_step_ecb s c s' : Inv s -> alive s = true -> step_f s (ECb c) = Some s' -> Inv s'.
+Proof.
+  intros I Ha H. cbn [step_f] in H. destruct (nth_error (cs s) c) as [e|] eqn:Ec; [|discriminate].
+  destruct (cst e) eqn:Est; try discriminate. injection H as <-.
+  destruct (I_cb s I c e Ec) as [B1 [B2 B3]]. rewrite Est in B2, B3.
+  assert (Hw : w s = WRes) by (apply B1; congruence).
+  assert (Hm : slot s <> Moved) by (eapply not_moved_c; eauto; congruence).
+  destruct (rd_ok s I Ha Hw Hm) as [R1 R2].
+  rewrite (add_cv_upd _ _ _ _ _ Ec).
+  apply (inv_cb_upd s c e _ false I Ha Ec); simpl; try congruence; try (rewrite Est; reflexivity).
+  - unfold held. simpl. rewrite Est. reflexivity.
+  - intros s2 W2 V2 _ _. unfold cb_ok. simpl. rewrite B2. simpl. rewrite B3, R1, V2. simpl.
+    split; [auto|split; [reflexivity|split; [reflexivity|congruence]]].
+Qed.
+
+Lemma inv_step_ecbdec s c s' : Inv s -> alive s = true -> step_f s (ECbDec c) = Some s' -> Inv s'.
+Proof.
+  intros I Ha H. cbn [step_f] in H. destruct (nth_error (cs s) c) as [e|] eqn:Ec; [|discriminate].
+  destruct (cst e) eqn:Est; try discriminate. injection H as <-.
+  destruct (I_cb s I c e Ec) as [B1 [B2 B3]]. rewrite Est in B2, B3. rewrite B2 in B3. simpl in B3.
+  rewrite (set_cst_upd _ _ _ _ Ec).
+  apply (inv_cb_upd s c e _ true I Ha Ec); simpl; try congruence; try (rewrite Est; reflexivity).
+  - unfold held. simpl. rewrite Est. auto.
+  - intros s2 W2 V2 _ _. unfold cb_ok. simpl. rewrite B2. simpl. rewrite V2.
+    split; [auto|split; [exact Logic.I|exact B3]].
+Qed.
+
+Lemma inv_step_efrc s n s' : Inv s -> alive s = true -> step_f s (EFRc n) = Some s' -> Inv s'.
+Proof.
+  intros I Ha H. cbn [step_f] in H. destruct (cur s) as [c|] eqn:Hcur; [|discriminate].
+  destruct (nth_error (cs s) c) as [e|] eqn:Ec; [|discriminate].
+  destruct (ck e) eqn:Ek; try discriminate. destruct (cst e) eqn:Est; try discriminate.
+  destruct (Nat.eqb n (refs s)) eqn:En; [|discriminate]. apply Nat.eqb_eq in En. subst n. injection H as <-.
+  destruct (I_cb s I c e Ec) as [B1 [B2 B3]]. rewrite Est in B2, B3.
+  destruct (cur_fpc s c Hcur) as [F0' [F1' [FD' Hp]]].
+  pose proof (I_refs s I) as R.
+  rewrite (set_cst_upd _ _ _ _ Ec).
+  apply (inv_cb_upd s c e _ false I Ha Ec); simpl; try congruence; try (rewrite Est; reflexivity).
+  - unfold held. simpl. rewrite Est. reflexivity.
+  - intros s2 W2 V2 R2 F2. unfold cb_ok. simpl. split; [auto|split; [|exact B3]].
+    split; [exact Ek|split].
+    + destruct (refs s) as [|[|k]]; simpl; try reflexivity; lia.
+    + intros Hmv. rewrite R2, F2.
+      assert (Hr2 : refs s = 2).
+      { destruct (refs s) as [|[|[|k]]]; simpl in Hmv; try discriminate; lia. }
+      split; [exact Hr2|]. unfold cur in Hcur. destruct (fpc s) eqn:Hf; try discriminate; injection Hcur as ->; [|reflexivity].
+      simpl in R. lia.
+Qed.
+
+Lemma inv_step_efinc s s' : Inv s -> alive s = true -> step_f s EFInc = Some s' -> Inv s'.
+Proof.
+  intros I Ha H. cbn [step_f] in H. destruct (cur s) as [c|] eqn:Hcur; [|discriminate].
+  destruct (nth_error (cs s) c) as [e|] eqn:Ec; [|discriminate].
+  destruct (ck e) eqn:Ek; try discriminate. destruct (cst e) eqn:Est; try discriminate. injection H as <-.
+  destruct (I_cb s I c e Ec) as [B1 [B2 B3]]. rewrite Est in B2, B3.
+  assert (Hm : slot s <> Moved) by (eapply not_moved_c; eauto; congruence).
+  rewrite (set_cst_upd _ _ _ _ Ec).
+  to_st (finishF (set_cs (upd (cs s) c (with_cst e CHeld)) (set_refs (S (refs s)) s))).
+  apply (finish_inv s c e _ _ I Ha Hcur Ec); simpl; try congruence; try reflexivity.
+  - unfold held. simpl. lia.
+  - intros s2 W2 V2. unfold cb_ok. simpl. split; [auto|split; [exact Ek|exact B3]].
+Qed.
+
+Lemma inv_step_efrun s s' : Inv s -> alive s = true -> step_f s EFRun = Some s' -> Inv s'.
+Proof.
+  intros I Ha H. cbn [step_f] in H. destruct (cur s) as [c|] eqn:Hcur; [|discriminate].
+  destruct (nth_error (cs s) c) as [e|] eqn:Ec; [|discriminate].
+  destruct (cur_fpc s c Hcur) as [F0' [F1' [FD' Hp]]].
+  assert (Hw : w s = WRes) by (apply fpc_word; assumption).
+  destruct (I_cb s I c e Ec) as [B1 [B2 B3]].
+  assert (Hnd : cst e <> CDone).
+  { intros E. assert (F : fir_at (cs s) c = true) by (apply (I_cur s I); exact Hcur).
+    unfold fir_at in F. rewrite Ec, E in F. discriminate. }
+  assert (Hm : slot s <> Moved) by (eapply not_moved_c; eauto).
+  destruct (rd_ok s I Ha Hw Hm) as [R1 R2].
+  rewrite (add_cv_upd _ _ _ _ _ Ec) in H.
+  destruct (ck e) eqn:Ek; try discriminate; destruct (cst e) as [ | |mv dc| | | ] eqn:Est; try discriminate.
+  - (* ThenInline & co: a read through const& *)
+    injection H as <-. simpl in B3.
+    to_st (finishF (set_cs (upd (cs s) c (with_cv e CDone (rd s))) (set_refs (refs s) s))).
+    apply (finish_inv s c e _ _ I Ha Hcur Ec); simpl; try congruence; try reflexivity.
+    + unfold held. simpl. lia.
+    + intros s2 W2 V2. unfold cb_ok. simpl. rewrite Ek. simpl. rewrite B3, R1, V2. simpl.
+      split; [auto|split; [exact Logic.I|split; [reflexivity|congruence]]].
+  - (* ResultCore::Impl: copy or move *)
+    simpl in B2, B3. destruct B2 as [_ [Hdc Hmv]]. subst dc. destruct mv.
+    + (* the move: nobody else is left *)
+      injection H as <-. destruct (Hmv eq_refl) as [Hr Hf].
+      destruct (excl_conn s c e false I Ec Est) as [_ [Hl0 Hh0]].
+      assert (Hfin : forall X, fpc X = FLast c -> finishF X = set_fpc FD2 X) by (intros X E; unfold finishF; rewrite E; reflexivity).
+      rewrite Hfin by (sf; exact Hf).
+      assert (Hother : forall j ej, j <> c -> nth_error (cs s) j = Some ej -> cst ej = CDone).
+      { intros j ej Hj He. eapply done_unless; eauto.
+        - unfold pend. rewrite Hw, Hf. simpl. auto.
+        - rewrite Hcur. congruence.
+        - eapply count_zero; eauto. }
+      assert (CH : count held (upd (cs s) c (with_cv e CDone (rd s))) = count held (cs s)).
+      { pose proof (count_upd held _ _ _ (with_cv e CDone (rd s)) Ec) as C.
+        assert (E1 : held e = false) by (unfold held; rewrite Est; reflexivity).
+        assert (E2 : held (with_cv e CDone (rd s)) = false) by reflexivity. rewrite E1, E2 in C. lia. }
+      pose proof (count_upd cinl _ _ _ (with_cv e CDone (rd s)) Ec) as CI. simpl in CI.
+      destruct (word_res s I Hw) as [r [Hv _]].
+      constructor.
+      * destruct (I_acct s I) as [A1 A2]. unfold AcctI. sf. rewrite Hf in A1. simpl in *. split; [lia|exact A2].
+      * unfold WordI. sf. split; [exact Hw|exists r; auto].
+      * unfold PendI, pend, cur. sf. rewrite Hw. simpl. split; [constructor|split; [|split; [exact Logic.I|]]].
+        { intros j. split; [intros []|]. unfold cst_at. rewrite nth_upd. destruct (Nat.eqb c j) eqn:E.
+          - apply Nat.eqb_eq in E. subst j. rewrite Ec. simpl. discriminate.
+          - apply Nat.eqb_neq in E. destruct (nth_error (cs s) j) eqn:Ej; [|discriminate].
+            rewrite (Hother j c0); [discriminate|congruence|exact Ej]. }
+        { intros j. split; [|discriminate]. unfold fir_at. rewrite nth_upd. destruct (Nat.eqb c j) eqn:E.
+          - apply Nat.eqb_eq in E. subst j. rewrite Ec. simpl. discriminate.
+          - apply Nat.eqb_neq in E. destruct (nth_error (cs s) j) eqn:Ej; [|discriminate].
+            rewrite (Hother j c0); [simpl; discriminate|congruence|exact Ej]. }
+      * intros j ej He. sf. rewrite nth_upd in He. destruct (Nat.eqb c j) eqn:E.
+        { apply Nat.eqb_eq in E. subst j. rewrite Ec in He. injection He as <-. unfold cb_ok. simpl. rewrite Ek. simpl.
+          rewrite B3, R1. simpl. split; [auto|split; [exact Logic.I|split; [reflexivity|congruence]]]. }
+        { apply Nat.eqb_neq in E. eapply cb_ok_noexcl; [apply (I_cb s I); exact He| |auto|auto].
+          intros dc Ex. rewrite (Hother j ej) in Ex; [discriminate|congruence|exact He]. }
+      * intros h pc Hh. sf. pose proof (count_zero live _ _ _ Hl0 Hh) as Hd. apply live_dead in Hd. subst pc. exact Logic.I.
+      * intros _. sf. split.
+        { intros h pc Hh. right. apply live_dead. eapply count_zero; eauto. }
+        { intros j ej He. rewrite nth_upd in He. destruct (Nat.eqb c j) eqn:E.
+          - apply Nat.eqb_eq in E. subst j. rewrite Ec in He. injection He as <-. reflexivity.
+          - apply Nat.eqb_neq in E. eapply Hother; eauto. }
+      * exact (I_log s I).
+      * pose proof (I_fail s I) as F. unfold FailI in *. sf. destruct (cinl e); lia.
+    + (* the copy *)
+      injection H as <-.
+      to_st (finishF (set_cs (upd (cs s) c (with_cv e CDone (rd s))) (set_refs (refs s) s))).
+      apply (finish_inv s c e _ _ I Ha Hcur Ec); simpl; try congruence; try reflexivity.
+      * unfold held. simpl. lia.
+      * intros s2 W2 V2. unfold cb_ok. simpl. rewrite Ek. simpl. rewrite B3, R1, V2. simpl.
+        split; [auto|split; [exact Logic.I|split; [reflexivity|congruence]]].
+Qed.
+
+(* ---- the destructor, and nothing else, runs after the last reference is gone ------------------------------------------ *)
+
+Lemma inv_step_dtor s s' : Inv s -> step_g true s EDtor = Some s' -> Inv s'.
+Proof.
+  intros I H. cbn [step_g] in H. destruct (dying s) eqn:Hd; [|discriminate]. destruct (w s) eqn:Hw; [discriminate|].
+  injection H as <-. constructor; try (apply I; fail).
+  destruct (I_acct s I) as [A1 [A2 [A3 [A4 [A5 A6]]]]]. unfold AcctI. sf. repeat split; auto; discriminate.
+Qed.
+
+Lemma dead_quiet s : Inv s -> alive s = false ->
+  fpc s = FDone /\ (forall h pc, nth_error (hs s) h = Some pc -> pc = HDead) /\
+  (forall c e, nth_error (cs s) c = Some e -> held e = false).
+Proof.
+  intros I Ha. pose proof (I_alive s I) as A. rewrite Ha in A. symmetry in A. apply negb_false_iff in A.
+  apply Nat.eqb_eq in A. pose proof (I_refs s I) as R. rewrite A in R.
+  split; [apply prom_zero; lia|split].
+  - intros h pc Hh. apply live_dead. eapply count_zero; eauto. lia.
+  - intros c e Hc. eapply count_zero; eauto. lia.
+Qed.
+
+Lemma dead_step s e s' : Inv s -> alive s = false -> step_g true s e = Some s' -> e = EDtor.
+Proof.
+  intros I Ha H. destruct (dead_quiet s I Ha) as [Hf [Hh Hc]].
+  assert (Ht : touch s = set_uaf (S (uaf s)) s) by (unfold touch; rewrite Ha; reflexivity).
+  assert (Hpc : forall h, pc_of (touch s) h = None \/ pc_of (touch s) h = Some HDead).
+  { intros h. rewrite Ht. unfold pc_of. sf. destruct (nth_error (hs s) h) as [pc|] eqn:E; [|left; reflexivity].
+    rewrite (Hh h pc E). right. reflexivity. }
+  destruct e; try reflexivity; exfalso; cbn [step_g step_f step_h] in H.
+  all: try (rewrite Ht in H; sf; rewrite Hf in H; discriminate).
+  all: try (rewrite Ht in H; unfold cur in H; sf; rewrite Hf in H; discriminate).
+  all: try (destruct (Hpc h) as [E|E]; rewrite E in H; discriminate).
+  - rewrite Ht in H. sf. destruct (nth_error (cs s) c) as [x|] eqn:E; [|discriminate].
+    specialize (Hc c x E). unfold held in Hc. destruct (cst x); discriminate.
+  - rewrite Ht in H. sf. destruct (nth_error (cs s) c) as [x|] eqn:E; [|discriminate].
+    specialize (Hc c x E). unfold held in Hc. destruct (cst x); discriminate.
+Qed.
+
+(* ---- the invariant holds in every reachable state --------------------------------------------------------------------- *)
+
+Theorem inv_step s e s' : Inv s -> step_g true s e = Some s' -> Inv s'.
+Proof.
+  intros I H. destruct (alive s) eqn:Ha.
+  - destruct e; cbn [step_g] in H; try rewrite (touch_alive s Ha) in H.
+    + eapply inv_step_set; eauto.
+    + eapply inv_step_xchg; eauto.
+    + eapply inv_step_decf; eauto.
+    + eapply inv_step_copyp; eauto.
+    + eapply inv_step_efrun; eauto.
+    + eapply inv_step_efinc; eauto.
+    + eapply inv_step_efrc; eauto.
+    + eapply inv_step_ecb; eauto.
+    + eapply inv_step_ecbdec; eauto.
+    + eapply (inv_step_h_local s (EReady h v)); eauto; exact Logic.I.
+    + eapply (inv_step_h_local s (EAwaitL h v)); eauto; exact Logic.I.
+    + eapply (inv_step_h_local s (ETouchL h mv v)); eauto; exact Logic.I.
+    + eapply (inv_step_h_local s (ERcH h n)); eauto; exact Logic.I.
+    + eapply inv_step_got; eauto.
+    + eapply (inv_step_h_local s (EAttL h p v)); eauto; exact Logic.I.
+    + eapply (inv_step_h_local s (ELdA h v)); eauto; exact Logic.I.
+    + eapply inv_step_cas; eauto.
+    + eapply (inv_step_h_local s (ECbInl h)); eauto; exact Logic.I.
+    + eapply inv_step_incinl; eauto.
+    + eapply (inv_step_h_local s (EConnL h v)); eauto; exact Logic.I.
+    + eapply inv_step_copy; eauto.
+    + eapply inv_step_destroy; eauto.
+    + eapply inv_step_dtor; eauto.
+  - pose proof (dead_step s e s' I Ha H) as ->. eapply inv_step_dtor; eauto.
+Qed.
+
+Theorem inv_run tr : forall s s', Inv s -> run_g true s tr = Some s' -> Inv s'.
+Proof.
+  induction tr as [|e tr IH]; simpl; intros s s' I H.
+  - injection H as <-. exact I.
+  - destruct (step_g true s e) as [s1|] eqn:E; [|discriminate]. eapply IH; [|exact H]. eapply inv_step; eauto.
+Qed.
+
+(* the model of the tree under check uses the rule read from the source: it is the rule the invariant is proved for *)
+Lemma run_is_run_true : run = run_g true.
+Proof. unfold run. destruct ready_rule as [_ ->]. reflexivity. Qed.
+
+Theorem inv_reach wf tr s : run (init wf) tr = Some s -> Inv s.
+Proof. rewrite run_is_run_true. apply inv_run. apply inv_init. Qed.
+
+(* ---- consequences, in the terms of the property --------------------------------------------------------------------- *)
+
+(* the value that was Set, once it was *)
+Definition the_value (s : st) (r : nat) : Prop := val s = Some r.
+
+Lemma good_is_some s v : good_val s v -> exists r, v = Some r /\ val s = Some r.
+Proof. intros [E N]. destruct v as [r|]; [exists r; split; congruence|congruence]. Qed.
+
+(* every attached continuation: nothing before it is fired, exactly one invocation, with the value *)
+Lemma cb_once s c e : Inv s -> nth_error (cs s) c = Some e ->
+  match cst e with
+  | CRan | CDone => if is_cb_kind (ck e) then exists r, cv e = [Some r] /\ val s = Some r else cv e = []
+  | _ => cv e = []
+  end.
+Proof.
+  intros I Hc. destruct (I_cb s I c e Hc) as [_ [_ B3]]. destruct (cst e); auto.
+  - destruct (is_cb_kind (ck e)); auto. destruct B3 as [E N]. destruct (val s) as [r|]; [|congruence]. exists r. auto.
+  - destruct (is_cb_kind (ck e)); auto. destruct B3 as [E N]. destruct (val s) as [r|]; [|congruence]. exists r. auto.
+Qed.
+
+(* anything a callback ever saw was seen after the exchange published the result *)
+Lemma cb_after_set s c e : Inv s -> nth_error (cs s) c = Some e -> cv e <> [] ->
+  w s = WRes /\ exists r, val s = Some r /\ fpc s <> F0 /\ fpc s <> F1.
+Proof.
+  intros I Hc Hn. pose proof (cb_once s c e I Hc) as H. destruct (I_cb s I c e Hc) as [B1 _].
+  assert (Hq : cst e <> CQueued) by (intros E; rewrite E in H; congruence).
+  specialize (B1 Hq). split; [exact B1|]. destruct (word_res s I B1) as [r [Hv _]]. exists r. split; [exact Hv|].
+  pose proof (I_word s I) as W. unfold WordI in W. split; intros E; rewrite E in W.
+  - destruct W as [_ [_ [l Hl]]]. congruence.
+  - destruct W as [_ [l Hl]]. congruence.
+Qed.
+
+(* when SetResult's walk is over nothing is left registered or half-fired *)
+Lemma none_left s c e : Inv s -> nth_error (cs s) c = Some e ->
+  (fpc s = FD2 \/ fpc s = FD1 \/ fpc s = FDone) -> cst e = CHeld \/ cst e = CRan \/ cst e = CDone.
+Proof.
+  intros I Hc Hf.
+  assert (Hw : w s = WRes) by (apply fpc_word; [exact I|destruct Hf as [E|[E|E]]; congruence|destruct Hf as [E|[E|E]]; congruence]).
+  destruct (cst e) eqn:Est; auto; exfalso.
+  - assert (In c (pend s)) by (apply (I_pend s I); unfold cst_at; rewrite Hc, Est; reflexivity).
+    unfold pend in H. rewrite Hw in H. destruct Hf as [E|[E|E]]; rewrite E in H; exact H.
+  - assert (cur s = Some c) by (apply (I_cur s I); unfold fir_at; rewrite Hc, Est; reflexivity).
+    unfold cur in H. destruct Hf as [E|[E|E]]; rewrite E in H; discriminate.
+  - assert (cur s = Some c) by (apply (I_cur s I); unfold fir_at; rewrite Hc, Est; reflexivity).
+    unfold cur in H. destruct Hf as [E|[E|E]]; rewrite E in H; discriminate.
+Qed.
+
+Lemma forallb_nth {A} (f : A -> bool) l i x : forallb f l = true -> nth_error l i = Some x -> f x = true.
+Proof. intros H Hn. rewrite forallb_forall in H. apply H. eapply nth_error_In; eauto. Qed.
+
+Lemma count_forallb_zero {A} (f g : A -> bool) l :
+  forallb g l = true -> (forall x, g x = true -> f x = false) -> count f l = 0.
+Proof.
+  induction l as [|a t IH]; simpl; intros H Hfg; [reflexivity|].
+  apply andb_true_iff in H. destruct H as [H1 H2]. rewrite (Hfg a H1). simpl. apply IH; assumption.
+Qed.
+
+Lemma terminal_parts s : terminal s = true ->
+  fpc s = FDone /\ forallb h_dead (hs s) = true /\ forallb c_done (cs s) = true /\ dying s = false.
+Proof.
+  unfold terminal. intros H. repeat (apply andb_true_iff in H; destruct H as [H ?]).
+  destruct (fpc s); try discriminate. repeat split; auto. apply negb_true_iff. assumption.
+Qed.
+
+(* at the end: every continuation ran exactly once with the value, every failed attach was run inline or handed to an
+   executor, the state was released exactly once *)
+Lemma terminal_exact s : Inv s -> terminal s = true ->
+  (forall c e, nth_error (cs s) c = Some e -> ck e <> KEvent -> exists r, cv e = [Some r] /\ val s = Some r) /\
+  nfail s = length (iruns s) + count cinl (cs s) /\
+  refs s = 0 /\ alive s = false /\ frees s = 1.
+Proof.
+  intros I T. destruct (terminal_parts s T) as [Hf [Hh [Hc Hd]]].
+  assert (L0 : count live (hs s) = 0) by (apply (count_forallb_zero live h_dead); [exact Hh|intros x Hx; unfold live; rewrite Hx; reflexivity]).
+  assert (H0' : count held (cs s) = 0).
+  { apply (count_forallb_zero held c_done); [exact Hc|]. intros x Hx. unfold c_done in Hx. unfold held. destruct (cst x); congruence. }
+  assert (I0 : count inl_pc (hs s) = 0).
+  { apply (count_forallb_zero inl_pc h_dead); [exact Hh|]. intros x Hx. destruct x; simpl in *; congruence. }
+  assert (R : refs s = 0) by (rewrite (I_refs s I), Hf, L0, H0'; reflexivity).
+  assert (A : alive s = false) by (rewrite (I_alive s I), R; reflexivity).
+  split; [|split; [|split; [exact R|split; [exact A|]]]].
+  - intros c e He Hk. pose proof (forallb_nth c_done _ _ _ Hc He) as Hdn. unfold c_done in Hdn.
+    pose proof (cb_once s c e I He) as H. destruct (cst e); try discriminate.
+    destruct (ck e); simpl in H; try exact H. congruence.
+  - pose proof (I_fail s I) as F. unfold FailI in F. lia.
+  - destruct (I_acct s I) as [_ [_ [A3 _]]]. rewrite A in A3. exact A3.
+Qed.
+
+Lemma values_ok s : Inv s ->
+  (forall v, In v (gots s ++ iruns s) -> exists r, v = Some r /\ val s = Some r) /\
+  (forall c e v, nth_error (cs s) c = Some e -> In v (cv e) -> exists r, v = Some r /\ val s = Some r).
+Proof.
+  intros I. destruct (I_log s I) as [L1 [L2 _]]. split.
+  - intros v Hin. apply in_app_or in Hin. rewrite Forall_forall in L1, L2.
+    destruct Hin as [Hin|Hin]; apply good_is_some; auto.
+  - intros c e v Hc Hin. pose proof (cb_once s c e I Hc) as H.
+    destruct (cst e); try (rewrite H in Hin; contradiction).
+    + destruct (is_cb_kind (ck e)); [|rewrite H in Hin; contradiction]. destruct H as [r [E V]]. rewrite E in Hin.
+      destruct Hin as [<-|[]]. eauto.
+    + destruct (is_cb_kind (ck e)); [|rewrite H in Hin; contradiction]. destruct H as [r [E V]]. rewrite E in Hin.
+      destruct Hin as [<-|[]]. eauto.
+Qed.
+
+Lemma moved_only_when_alone s : Inv s -> slot s = Moved ->
+  (forall h pc, nth_error (hs s) h = Some pc -> pc = HSpent \/ pc = HDead) /\
+  (forall c e, nth_error (cs s) c = Some e -> cst e = CDone).
+Proof. intros I Hm. exact (I_moved s I Hm). Qed.
+
+(* the two places where a move is decided see a counter that proves nobody else is left *)
+Lemma move_decisions_exclusive s : Inv s ->
+  (forall h, nth_error (hs s) h = Some (HOut true) -> refs s = 1 /\ fpc s = FDone /\ count live (hs s) = 1 /\ count held (cs s) = 0) /\
+  (forall c e dc, nth_error (cs s) c = Some e -> cst e = CConn true dc ->
+     refs s = 2 /\ fpc s = FLast c /\ count live (hs s) = 0 /\ count held (cs s) = 0).
+Proof.
+  intros I. split.
+  - intros h Hh. destruct (excl_out s h I Hh) as [A [B C]]. pose proof (I_h s I h _ Hh) as [_ R]. auto.
+  - intros c e dc Hc He. destruct (excl_conn s c e dc I Hc He) as [A [B C]].
+    destruct (I_cb s I c e Hc) as [_ [B2 _]]. rewrite He in B2. destruct B2 as [_ [_ B2]]. destruct (B2 eq_refl). auto.
+Qed.
+
+Lemma refs_ok s : Inv s ->
+  under s = 0 /\ uaf s = 0 /\ frees s <= 1 /\ (frees s = 1 <-> refs s = 0) /\ (alive s = false <-> refs s = 0) /\
+  refs s = prom (fpc s) + count live (hs s) + count held (cs s) /\
+  (alive s = false -> w s = WRes /\ fpc s = FDone).
+Proof.
+  intros I. destruct (I_acct s I) as [A1 [A2 [A3 [A4 [A5 A6]]]]].
+  assert (E : alive s = false <-> refs s = 0).
+  { rewrite A2. destruct (refs s); simpl; split; intros; try reflexivity; try discriminate; lia. }
+  repeat split; auto.
+  - rewrite A3. destruct (alive s); lia.
+  - intros F. apply E. rewrite A3 in F. destruct (alive s); [discriminate|reflexivity].
+  - intros R. apply E in R. rewrite A3, R. reflexivity.
+  - apply E.
+  - apply E.
+  - destruct (dead_quiet s I H) as [Hf _]. apply fpc_word; [exact I|congruence|congruence].
+  - destruct (dead_quiet s I H) as [Hf _]. exact Hf.
+Qed.
+
+Lemma ready_ok s : Inv s ->
+  Forall (fun p => fst p = true -> snd p = true) (readys s) /\
+  (w s = WRes -> exists r, val s = Some r /\ (slot s = SetV r \/ slot s = Moved)).
+Proof. intros I. split; [apply (I_log s I)|apply word_res; exact I]. Qed.
